@@ -32,51 +32,136 @@ Ltac eqb_cases :=
   | H : context [Nat.eqb ?a ?b] |- _ => destruct (Nat.eqb_spec a b); subst
   end.
 
-(** ** the ERC20 ledger: exact deltas *)
-Lemma erc_transfer_spec l f t x l' : erc_transfer l f t x = Some l' ->
+(** ** the OpenZeppelin ledger: exact deltas *)
+Lemma erc_transfer_nz z l f t x l' : erc_transfer z l f t x = Some l' -> f <> z /\ t <> z.
+Proof.
+  unfold erc_transfer. destruct (Nat.eqb_spec f z), (Nat.eqb_spec t z); cbn [orb]; try discriminate.
+  intros _. split; assumption.
+Qed.
+
+Lemma erc_transfer_spec z l f t x l' : erc_transfer z l f t x = Some l' ->
   u256 x <= ebal l f /\ etot l' = etot l /\
   forall a, ebal l' a = ebal l a - dlt (Nat.eqb a f) (u256 x) + dlt (Nat.eqb a t) (u256 x).
 Proof.
-  unfold erc_transfer. destruct (Z.leb_spec (u256 x) (ebal l f)) as [Hle|]; [|discriminate].
+  unfold erc_transfer. destruct (Nat.eqb f z || Nat.eqb t z); [discriminate|].
+  destruct (Z.leb_spec (u256 x) (ebal l f)) as [Hle|]; [|discriminate].
   intros H; inversion H; subst; clear H. cbn [ebal etot].
   split; [exact Hle|]. split; [reflexivity|].
   intros a. unfold upd, dlt. eqb_cases; try congruence; lia.
 Qed.
 
-Lemma erc_mint_spec l t x l' : erc_mint l t x = Some l' ->
+Lemma erc_transfer_allow z l f t x l' : erc_transfer z l f t x = Some l' -> eallow l' = eallow l.
+Proof.
+  unfold erc_transfer. destruct (Nat.eqb f z || Nat.eqb t z); [discriminate|].
+  destruct (u256 x <=? ebal l f); [|discriminate]. intros H; inversion H; reflexivity.
+Qed.
+
+Lemma erc_mint_nz z l t x l' : erc_mint z l t x = Some l' -> t <> z.
+Proof. unfold erc_mint. destruct (Nat.eqb_spec t z); [discriminate|]. intros _. assumption. Qed.
+
+Lemma erc_mint_spec z l t x l' : erc_mint z l t x = Some l' ->
   etot l + u256 x < U256 /\ etot l' = etot l + u256 x /\
   forall a, ebal l' a = ebal l a + dlt (Nat.eqb a t) (u256 x).
 Proof.
-  unfold erc_mint. destruct (Z.ltb_spec (etot l + u256 x) U256) as [Hlt|]; [|discriminate].
+  unfold erc_mint. destruct (Nat.eqb t z); [discriminate|].
+  destruct (Z.ltb_spec (etot l + u256 x) U256) as [Hlt|]; [|discriminate].
   intros H; inversion H; subst; clear H. cbn [ebal etot].
   split; [exact Hlt|]. split; [reflexivity|].
   intros a. unfold upd, dlt. eqb_cases; lia.
 Qed.
 
-Lemma erc_burn_spec l f x l' : erc_burn l f x = Some l' ->
+Lemma erc_mint_allow z l t x l' : erc_mint z l t x = Some l' -> eallow l' = eallow l.
+Proof.
+  unfold erc_mint. destruct (Nat.eqb t z); [discriminate|].
+  destruct (etot l + u256 x <? U256); [|discriminate]. intros H; inversion H; reflexivity.
+Qed.
+
+Lemma erc_burn_nz z l f x l' : erc_burn z l f x = Some l' -> f <> z.
+Proof. unfold erc_burn. destruct (Nat.eqb_spec f z); [discriminate|]. intros _. assumption. Qed.
+
+Lemma erc_burn_spec z l f x l' : erc_burn z l f x = Some l' ->
   u256 x <= ebal l f /\ etot l' = etot l - u256 x /\
   forall a, ebal l' a = ebal l a - dlt (Nat.eqb a f) (u256 x).
 Proof.
-  unfold erc_burn. destruct (Z.leb_spec (u256 x) (ebal l f)) as [Hle|]; [|discriminate].
+  unfold erc_burn. destruct (Nat.eqb f z); [discriminate|].
+  destruct (Z.leb_spec (u256 x) (ebal l f)) as [Hle|]; [|discriminate].
   intros H; inversion H; subst; clear H. cbn [ebal etot].
   split; [exact Hle|]. split; [reflexivity|].
   intros a. unfold upd, dlt. eqb_cases; lia.
 Qed.
 
+Lemma erc_burn_allow z l f x l' : erc_burn z l f x = Some l' -> eallow l' = eallow l.
+Proof.
+  unfold erc_burn. destruct (Nat.eqb f z); [discriminate|].
+  destruct (u256 x <=? ebal l f); [|discriminate]. intros H; inversion H; reflexivity.
+Qed.
+
+Lemma upd2_eq {A} (f : nat -> nat -> A) a d v x y :
+  upd2 f a d v x y = if Nat.eqb x a && Nat.eqb y d then v else f x y.
+Proof. reflexivity. Qed.
+
+Lemma erc_approve_spec z l o sp x l' : erc_approve z l o sp x = Some l' ->
+  o <> z /\ sp <> z /\ ebal l' = ebal l /\ etot l' = etot l /\
+  eallow l' = upd2 (eallow l) o sp (u256 x).
+Proof.
+  unfold erc_approve. destruct (Nat.eqb_spec o z), (Nat.eqb_spec sp z); cbn [orb]; try discriminate.
+  intros H; inversion H; subst; clear H. cbn [ebal etot eallow]. repeat split; assumption.
+Qed.
+
+(* transferFrom: the allowance of (from, spender) is the only one touched, it
+   covers the amount (or is infinite), then an ordinary transfer *)
+Lemma erc_transfer_from_spec z l sp f t x l' : erc_transfer_from z l sp f t x = Some l' ->
+  (eallow l f sp = U256 - 1 \/ u256 x <= eallow l f sp) /\
+  u256 x <= ebal l f /\ etot l' = etot l /\
+  (forall a, ebal l' a = ebal l a - dlt (Nat.eqb a f) (u256 x) + dlt (Nat.eqb a t) (u256 x)) /\
+  (forall o s', eallow l' o s' = eallow l o s' \/
+                (o = f /\ s' = sp /\ eallow l' o s' = u256 (eallow l f sp - u256 x) /\ u256 x <= eallow l f sp)).
+Proof.
+  unfold erc_transfer_from.
+  destruct (Z.eqb_spec (eallow l f sp) (U256 - 1)) as [Hmax|Hmax].
+  - intros H. pose proof (erc_transfer_allow _ _ _ _ _ _ H) as Ha.
+    apply erc_transfer_spec in H. destruct H as (Hle & Htot & Hb).
+    split; [left; exact Hmax|]. split; [exact Hle|]. split; [exact Htot|]. split; [exact Hb|].
+    intros o s'. left. rewrite Ha. reflexivity.
+  - destruct (Z.leb_spec (u256 x) (eallow l f sp)) as [Hcov|]; [|discriminate].
+    destruct (erc_approve z l f sp (eallow l f sp - u256 x)) as [l1|] eqn:Ea; [|discriminate].
+    apply erc_approve_spec in Ea. destruct Ea as (_ & _ & Eb & Et & Eal).
+    intros H. pose proof (erc_transfer_allow _ _ _ _ _ _ H) as Ha.
+    apply erc_transfer_spec in H. destruct H as (Hle & Htot & Hb).
+    rewrite Eb in Hle, Hb. rewrite Et in Htot.
+    split; [right; exact Hcov|]. split; [exact Hle|]. split; [exact Htot|]. split; [exact Hb|].
+    intros o s'. rewrite Ha, Eal, upd2_eq.
+    destruct (Nat.eqb_spec o f) as [->|]; cbn [andb]; [|left; reflexivity].
+    destruct (Nat.eqb_spec s' sp) as [->|]; [|left; reflexivity].
+    right. split; [reflexivity|]. split; [reflexivity|]. split; [reflexivity|exact Hcov].
+Qed.
+
+(** ** the adversarial token *)
+Lemma rf_transfer_spec l f t x l' : rf_transfer l f t x = Some l' ->
+  u256 x <= ebal l f /\ etot l' = etot l /\ eallow l' t f = u256 x /\
+  (forall a, a <> t -> ebal l' a = ebal l a - dlt (Nat.eqb a f) (u256 x)) /\
+  ebal l' t = u256 (ebal l t - dlt (Nat.eqb t f) (u256 x) + u256 x).
+Proof.
+  unfold rf_transfer. destruct (Z.ltb_spec (ebal l f) (u256 x)) as [|Hle]; [discriminate|].
+  intros H; inversion H; subst; clear H. cbn [ebal etot eallow].
+  split; [exact Hle|]. split; [reflexivity|]. split.
+  { rewrite upd2_eq, !Nat.eqb_refl. reflexivity. }
+  split.
+  - intros a Ha. unfold upd, dlt. destruct (Nat.eqb_spec a t); [congruence|].
+    destruct (Nat.eqb_spec a f) as [->|]; lia.
+  - unfold upd, dlt. rewrite Nat.eqb_refl. destruct (Nat.eqb_spec t f) as [->|]; f_equal; lia.
+Qed.
+
 (** ** x/bank primitives: exact deltas *)
 Definition same_evm (s s' : state) : Prop :=
   erc s' = erc s /\ reg s' = reg s /\ next s' = next s /\
-  enabled s' = enabled s /\ allowed s' = allowed s.
+  pairs s' = pairs s /\ allowed s' = allowed s.
 
 Lemma same_evm_refl s : same_evm s s.
 Proof. repeat split. Qed.
 
 Lemma same_evm_trans s1 s2 s3 : same_evm s1 s2 -> same_evm s2 s3 -> same_evm s1 s3.
 Proof. unfold same_evm. intros (?&?&?&?&?) (?&?&?&?&?). repeat split; congruence. Qed.
-
-Lemma upd2_eq {A} (f : nat -> nat -> A) a d v x y :
-  upd2 f a d v x y = if Nat.eqb x a && Nat.eqb y d then v else f x y.
-Proof. reflexivity. Qed.
 
 Lemma bank_send_spec s f t d x s' : bank_send s f t d x = Some s' ->
   (x = 0 \/ x <= bal s f d) /\ same_evm s s' /\ sup s' = sup s /\
@@ -99,7 +184,7 @@ Lemma bank_mint_spec e s d x :
   (forall d', sup (bank_mint e s d x) d' = sup s d' + dlt (Nat.eqb d' d) x) /\
   forall a d', bal (bank_mint e s d x) a d' = bal s a d' + dlt (Nat.eqb a (macc e) && Nat.eqb d' d) x.
 Proof.
-  unfold bank_mint. cbn [set_sup set_bal bal sup erc reg next enabled allowed].
+  unfold bank_mint. cbn [set_sup set_bal bal sup erc reg next pairs allowed].
   split; [repeat split|]. split.
   - intros d'. unfold upd, dlt. eqb_cases; lia.
   - intros a d'. rewrite upd2_eq. unfold dlt. eqb_cases; cbn [andb]; lia.
@@ -115,7 +200,7 @@ Proof.
     split; intros; unfold dlt; [destruct (Nat.eqb _ _)|destruct (_ && _)]; lia.
   - destruct (Z.leb_spec x (bal s (macc e) d)) as [Hle|]; [|discriminate].
     intros H; inversion H; subst; clear H.
-    cbn [set_sup set_bal bal sup erc reg next enabled allowed].
+    cbn [set_sup set_bal bal sup erc reg next pairs allowed].
     split; [right; exact Hle|]. split; [repeat split|]. split.
     + intros d'. unfold upd, dlt. eqb_cases; lia.
     + intros a d'. rewrite upd2_eq. unfold dlt. eqb_cases; cbn [andb]; lia.
@@ -125,6 +210,74 @@ Lemma send_mod_to_acc_spec e s t d x s' : send_mod_to_acc e s t d x = Some s' ->
   blocked e t = false /\ bank_send s (macc e) t d x = Some s'.
 Proof. unfold send_mod_to_acc. destruct (blocked e t); [discriminate|]. auto. Qed.
 
+(** ** lookups in the enabled-pair list *)
+
+Definition pairs_nodup (l : list (nat * nat)) : Prop := NoDup (map fst l) /\ NoDup (map snd l).
+
+Definition on_table (e : env) (p : nat * nat) : Prop :=
+  (fst p < npair e)%nat /\ snd p = pair_denom e (fst p).
+
+Lemma pair_of_denom_some s d c : pair_of_denom s d = Some c -> In (c, d) (pairs s).
+Proof.
+  unfold pair_of_denom. destruct (find _ (pairs s)) as [[c' d']|] eqn:Ef; [|discriminate].
+  intros H; inversion H; subst; clear H. apply find_some in Ef. destruct Ef as [Hin Hb].
+  cbn in Hb. apply Nat.eqb_eq in Hb. subst. exact Hin.
+Qed.
+
+Lemma pair_of_ctr_some s c d : pair_of_ctr s c = Some d -> In (c, d) (pairs s).
+Proof.
+  unfold pair_of_ctr. destruct (find _ (pairs s)) as [[c' d']|] eqn:Ef; [|discriminate].
+  intros H; inversion H; subst; clear H. apply find_some in Ef. destruct Ef as [Hin Hb].
+  cbn in Hb. apply Nat.eqb_eq in Hb. subst. exact Hin.
+Qed.
+
+Lemma nodupb_NoDup l : nodupb l = true <-> NoDup l.
+Proof.
+  induction l as [|x r IH]; cbn [nodupb].
+  - split; [constructor|reflexivity].
+  - rewrite andb_true_iff, negb_true_iff, IH. split.
+    + intros [Hn Hr]. constructor; [|exact Hr]. intros Hin.
+      assert (existsb (Nat.eqb x) r = true) by (apply existsb_exists; exists x; split; [exact Hin|apply Nat.eqb_refl]).
+      congruence.
+    + intros H. inversion H; subst. split; [|assumption].
+      destruct (existsb (Nat.eqb x) r) eqn:E; [|reflexivity].
+      apply existsb_exists in E. destruct E as (y & Hy & Hxy). apply Nat.eqb_eq in Hxy. subst. contradiction.
+Qed.
+
+Lemma pairs_nodupb_spec l : pairs_nodupb l = true <-> pairs_nodup l.
+Proof. unfold pairs_nodupb, pairs_nodup. rewrite andb_true_iff, !nodupb_NoDup. reflexivity. Qed.
+
+(* in a duplicate-free list the lookups by denom and by address are functions:
+   they return THE pair with that denom / that address *)
+Lemma find_by_snd l c d : NoDup (map snd l) -> In (c, d) l ->
+  find (fun p : nat * nat => Nat.eqb (snd p) d) l = Some (c, d).
+Proof.
+  induction l as [|[c' d'] r IH]; intros Hnd Hin; [contradiction|].
+  cbn [map snd] in Hnd. inversion Hnd as [|? ? Hnot Hr]; subst.
+  cbn [find snd]. destruct (Nat.eqb_spec d' d) as [->|Hne].
+  - destruct Hin as [Heq|Hin]; [inversion Heq; reflexivity|].
+    exfalso. apply Hnot. apply (in_map snd) in Hin. exact Hin.
+  - destruct Hin as [Heq|Hin]; [inversion Heq; congruence|]. apply IH; assumption.
+Qed.
+
+Lemma find_by_fst l c d : NoDup (map fst l) -> In (c, d) l ->
+  find (fun p : nat * nat => Nat.eqb (fst p) c) l = Some (c, d).
+Proof.
+  induction l as [|[c' d'] r IH]; intros Hnd Hin; [contradiction|].
+  cbn [map fst] in Hnd. inversion Hnd as [|? ? Hnot Hr]; subst.
+  cbn [find fst]. destruct (Nat.eqb_spec c' c) as [->|Hne].
+  - destruct Hin as [Heq|Hin]; [inversion Heq; reflexivity|].
+    exfalso. apply Hnot. apply (in_map fst) in Hin. exact Hin.
+  - destruct Hin as [Heq|Hin]; [inversion Heq; congruence|]. apply IH; assumption.
+Qed.
+
+Lemma lookup_functional s c d : pairs_nodup (pairs s) -> In (c, d) (pairs s) ->
+  pair_of_denom s d = Some c /\ pair_of_ctr s c = Some d.
+Proof.
+  intros [Hf Hs] Hin. unfold pair_of_denom, pair_of_ctr.
+  rewrite (find_by_snd _ c d Hs Hin), (find_by_fst _ c d Hf Hin). split; reflexivity.
+Qed.
+
 (** ** the four conversions: exact effect of a successful call *)
 
 (* the ledger of the wrapper of cosmos denom d (empty while not deployed) *)
@@ -132,51 +285,50 @@ Definition wl (s : state) (d : nat) : ledger :=
   match reg s d with Some c => erc s c | None => empty_ledger end.
 
 Definition same_params (s s' : state) : Prop :=
-  enabled s' = enabled s /\ allowed s' = allowed s.
+  pairs s' = pairs s /\ allowed s' = allowed s.
 
-Lemma pair_of_denom_some e s d c : pair_of_denom e s d = Some c ->
-  (c < npair e)%nat /\ enabled s c = true /\ pair_denom e c = d.
-Proof.
-  unfold pair_of_denom. intros H. apply find_some in H. destruct H as [Hin Hb].
-  apply in_seq in Hin. apply andb_prop in Hb. destruct Hb as [He Hd].
-  apply Nat.eqb_eq in Hd. repeat split; [lia|exact He|exact Hd].
-Qed.
+Lemma emits_approval_false e c : emits_approval e c = false -> kind e c = Oz.
+Proof. unfold emits_approval. destruct (kind e c); [reflexivity|discriminate]. Qed.
 
 (* ConvertERC20ToCoin *)
 Lemma conv_erc20_to_coin_spec e s i r c x s' :
   conv_erc20_to_coin e s i r c x = Ok s' tt ->
-  let d := pair_denom e c in
+  exists d, pair_of_ctr s c = Some d /\
   let mint := if is_bep3 e d then x / K10 else x in
   let lock := mint * kf e d in
-  (c < npair e)%nat /\ enabled s c = true /\ blocked e r = false /\
+  (c < next s)%nat /\ kind e c = Oz /\ i <> zacc e /\ macc e <> zacc e /\ blocked e r = false /\
   (is_bep3 e d = true -> mint <> 0) /\
   0 <= lock < U256 /\ lock <= ebal (erc s c) i /\
   (forall a, ebal (erc s' c) a = ebal (erc s c) a - dlt (Nat.eqb a i) lock + dlt (Nat.eqb a (macc e)) lock) /\
-  etot (erc s' c) = etot (erc s c) /\
+  etot (erc s' c) = etot (erc s c) /\ eallow (erc s' c) = eallow (erc s c) /\
   (forall c', c' <> c -> erc s' c' = erc s c') /\
   (forall a d', bal s' a d' = bal s a d' + dlt (Nat.eqb a r && Nat.eqb d' d) mint) /\
   (forall d', sup s' d' = sup s d' + dlt (Nat.eqb d' d) mint) /\
   reg s' = reg s /\ next s' = next s /\ same_params s s'.
 Proof.
-  intros H d mint lock. unfold conv_erc20_to_coin, pair_enabled in H.
-  destruct (Nat.ltb_spec c (npair e)) as [Hc|]; [|discriminate].
-  destruct (enabled s c) eqn:Hen; [|discriminate]. cbn [andb negb] in H.
-  fold d in H.
+  intros H. unfold conv_erc20_to_coin in H.
+  destruct (pair_of_ctr s c) as [d|] eqn:Ep; [|discriminate].
+  exists d. split; [reflexivity|]. intros mint lock.
   assert (Hlock : (if is_bep3 e d then x / K10 * K10 else x) = lock).
   { unfold lock, mint, kf. destruct (is_bep3 e d); lia. }
   rewrite Hlock in H. fold mint in H.
   destruct (is_bep3 e d && (mint =? 0)) eqn:Hz; [discriminate|].
-  destruct (erc_transfer (erc s c) i (macc e) lock) as [l1|] eqn:Et; [|discriminate].
-  apply erc_transfer_spec in Et. destruct Et as (Hle & Htot & Hb).
+  destruct (Nat.leb_spec (next s) c) as [|Hcn]; [discriminate|].
+  destruct (tok_transfer e c (erc s c) i (macc e) lock) as [l1|] eqn:Et; [|discriminate].
   destruct (Z.eqb_spec (ebal (erc s c) i - lock) (ebal l1 i)) as [Hd|]; [|discriminate].
   cbn [negb] in H.
+  destruct (emits_approval e c) eqn:Hap; [discriminate|]. apply emits_approval_false in Hap.
+  unfold tok_transfer in Et. rewrite Hap in Et.
+  pose proof (erc_transfer_nz _ _ _ _ _ _ Et) as [Hiz Hmz].
+  pose proof (erc_transfer_allow _ _ _ _ _ _ Et) as Hal.
+  apply erc_transfer_spec in Et. destruct Et as (Hle & Htot & Hb).
   destruct (send_mod_to_acc e _ r d mint) as [s3|] eqn:Es; [|discriminate].
   inversion H; subst s3; clear H.
   apply send_mod_to_acc_spec in Es. destruct Es as (Hblk & Es).
   apply bank_send_spec in Es. destruct Es as (_ & Hev & Hsup & Hbal).
   destruct (bank_mint_spec e (set_erc s c l1) d mint) as (Hev2 & Hsup2 & Hbal2).
   destruct Hev as (He1 & He2 & He3 & He4 & He5). destruct Hev2 as (Hf1 & Hf2 & Hf3 & Hf4 & Hf5).
-  cbn [set_erc erc reg next enabled allowed bal sup] in *.
+  cbn [set_erc erc reg next pairs allowed bal sup] in *.
   (* the balance-delta check forces the wrapped amount to be the amount *)
   assert (Hu : u256 lock = lock).
   { rewrite Hb in Hd. rewrite Nat.eqb_refl in Hd. unfold dlt in Hd.
@@ -184,12 +336,13 @@ Proof.
     - assert (lock = 0) by lia. replace lock with 0 by lia. reflexivity.
     - lia. }
   rewrite Hu in *.
-  split; [exact Hc|]. split; [reflexivity|]. split; [exact Hblk|].
+  split; [exact Hcn|]. split; [exact Hap|]. split; [exact Hiz|]. split; [exact Hmz|]. split; [exact Hblk|].
   split. { intros Hbep. rewrite Hbep in Hz. cbn [andb] in Hz. apply Z.eqb_neq. exact Hz. }
   split. { apply u256_eq_range. exact Hu. }
   split; [exact Hle|].
   split. { intros a. rewrite He1, Hf1. unfold upd. rewrite Nat.eqb_refl. apply Hb. }
   split. { rewrite He1, Hf1. unfold upd. rewrite Nat.eqb_refl. exact Htot. }
+  split. { rewrite He1, Hf1. unfold upd. rewrite Nat.eqb_refl. exact Hal. }
   split. { intros c' Hne. rewrite He1, Hf1. unfold upd. destruct (Nat.eqb_spec c' c); [congruence|reflexivity]. }
   split. { intros a d'. rewrite Hbal, Hbal2. unfold dlt. destruct (Nat.eqb a (macc e) && Nat.eqb d' d); lia. }
   split. { intros d'. rewrite Hsup, Hsup2. reflexivity. }
@@ -199,30 +352,37 @@ Qed.
 (* ConvertCoinToERC20 *)
 Lemma conv_coin_to_erc20_spec e s i r d x s' :
   conv_coin_to_erc20 e s i r d x = Ok s' tt -> i <> macc e ->
-  exists c, pair_of_denom e s d = Some c /\
+  exists c, pair_of_denom s d = Some c /\
   let unlock := x * kf e d in
+  (c < next s)%nat /\ kind e c = Oz /\ r <> zacc e /\ macc e <> zacc e /\
   (x = 0 \/ x <= bal s i d) /\
   0 <= unlock < U256 /\ unlock <= ebal (erc s c) (macc e) /\
   (forall a, ebal (erc s' c) a = ebal (erc s c) a - dlt (Nat.eqb a (macc e)) unlock + dlt (Nat.eqb a r) unlock) /\
-  etot (erc s' c) = etot (erc s c) /\
+  etot (erc s' c) = etot (erc s c) /\ eallow (erc s' c) = eallow (erc s c) /\
   (forall c', c' <> c -> erc s' c' = erc s c') /\
   (forall a d', bal s' a d' = bal s a d' - dlt (Nat.eqb a i && Nat.eqb d' d) x) /\
   (forall d', sup s' d' = sup s d' - dlt (Nat.eqb d' d) x) /\
   reg s' = reg s /\ next s' = next s /\ same_params s s'.
 Proof.
   intros H Hi. unfold conv_coin_to_erc20 in H.
-  destruct (pair_of_denom e s d) as [c|] eqn:Ep; [|discriminate].
+  destruct (pair_of_denom s d) as [c|] eqn:Ep; [|discriminate].
   exists c. split; [reflexivity|]. intros unlock.
   destruct (bank_send s i (macc e) d x) as [s1|] eqn:E1; [|discriminate].
   destruct (bank_burn e s1 d x) as [s2|] eqn:E2; [|discriminate].
   assert (Hun : (if is_bep3 e d then x * K10 else x) = unlock).
   { unfold unlock, kf. destruct (is_bep3 e d); lia. }
   rewrite Hun in H.
-  destruct (erc_transfer (erc s2 c) (macc e) r unlock) as [l1|] eqn:Et; [|discriminate].
+  destruct (Nat.leb_spec (next s2) c) as [|Hcn]; [discriminate|].
+  destruct (tok_transfer e c (erc s2 c) (macc e) r unlock) as [l1|] eqn:Et; [|discriminate].
   destruct (Z.eqb_spec (ebal (erc s2 c) r + unlock) (ebal l1 r)) as [Hd|]; [|discriminate].
+  cbn [negb] in H.
+  destruct (emits_approval e c) eqn:Hap; [discriminate|]. apply emits_approval_false in Hap.
   inversion H; subst s'; clear H.
+  unfold tok_transfer in Et. rewrite Hap in Et.
   apply bank_send_spec in E1. destruct E1 as (Hfunds & (He1 & He2 & He3 & He4 & He5) & Hsup1 & Hbal1).
   apply bank_burn_spec in E2. destruct E2 as (_ & (Hf1 & Hf2 & Hf3 & Hf4 & Hf5) & Hsup2 & Hbal2).
+  pose proof (erc_transfer_nz _ _ _ _ _ _ Et) as [Hmz Hrz].
+  pose proof (erc_transfer_allow _ _ _ _ _ _ Et) as Hal.
   apply erc_transfer_spec in Et. destruct Et as (Hle & Htot & Hb).
   assert (Herc : erc s2 c = erc s c) by (rewrite Hf1, He1; reflexivity).
   rewrite Herc in *.
@@ -232,12 +392,14 @@ Proof.
     - assert (unlock = 0) by lia. replace unlock with 0 by lia. reflexivity.
     - lia. }
   rewrite Hu in *.
-  cbn [set_erc erc reg next enabled allowed bal sup].
+  cbn [set_erc erc reg next pairs allowed bal sup].
+  split; [rewrite <- He3, <- Hf3; exact Hcn|]. split; [exact Hap|]. split; [exact Hrz|]. split; [exact Hmz|].
   split; [exact Hfunds|].
   split. { apply u256_eq_range. exact Hu. }
   split; [exact Hle|].
   split. { intros a. unfold upd. rewrite Nat.eqb_refl. apply Hb. }
   split. { unfold upd. rewrite Nat.eqb_refl. exact Htot. }
+  split. { unfold upd. rewrite Nat.eqb_refl. exact Hal. }
   split. { intros c' Hne. unfold upd. destruct (Nat.eqb_spec c' c); [congruence|]. rewrite Hf1, He1. reflexivity. }
   split. { intros a d'. rewrite Hbal2, Hbal1. unfold dlt.
            destruct (Nat.eqb_spec a i) as [->|]; cbn [andb].
@@ -245,13 +407,13 @@ Proof.
            - destruct (Nat.eqb a (macc e) && Nat.eqb d' d); lia. }
   split. { intros d'. rewrite Hsup2, Hsup1. reflexivity. }
   split; [congruence|]. split; [congruence|].
-  unfold same_params; cbn [set_erc enabled allowed]; split; congruence.
+  unfold same_params; cbn [set_erc pairs allowed]; split; congruence.
 Qed.
 
 (* ConvertCosmosCoinToERC20 *)
 Lemma conv_cosmos_to_erc20_spec e s i r d x s' :
   conv_cosmos_to_erc20 e s i r d x = Ok s' tt -> 0 <= x < U256 ->
-  allowed s d = true /\ (x = 0 \/ x <= bal s i d) /\
+  allowed s d = true /\ r <> zacc e /\ (x = 0 \/ x <= bal s i d) /\
   exists c, reg s' d = Some c /\
     ((reg s d = Some c /\ reg s' = reg s /\ next s' = next s) \/
      (reg s d = None /\ c = next s /\ reg s' = upd (reg s) d (Some c) /\ next s' = S (next s))) /\
@@ -267,28 +429,32 @@ Proof.
   destruct (allowed s d) eqn:Hal; [|discriminate]. cbn [negb] in H.
   destruct (bank_send s i (macc e) d x) as [s1|] eqn:E1; [|discriminate].
   apply bank_send_spec in E1. destruct E1 as (Hfunds & (He1 & He2 & He3 & He4 & He5) & Hsup1 & Hbal1).
-  split; [reflexivity|]. split; [exact Hfunds|].
+  split; [reflexivity|].
   rewrite He2 in H. unfold wl.
   destruct (reg s d) as [c|] eqn:Er.
   - (* already deployed *)
-    destruct (erc_mint (erc s1 c) r x) as [l1|] eqn:Em; [|discriminate].
+    destruct (erc_mint (zacc e) (erc s1 c) r x) as [l1|] eqn:Em; [|discriminate].
     inversion H; subst s'; clear H.
+    pose proof (erc_mint_nz _ _ _ _ _ Em) as Hrz.
     apply erc_mint_spec in Em. rewrite (u256_small x Hx) in Em. destruct Em as (Hlt & Htot & Hb).
     rewrite He1 in *.
-    exists c. cbn [set_erc erc reg next enabled allowed bal sup].
+    split; [exact Hrz|]. split; [exact Hfunds|].
+    exists c. cbn [set_erc erc reg next pairs allowed bal sup].
     split; [congruence|]. split; [left; repeat split; congruence|].
     split; [exact Hlt|].
     split. { intros a. unfold upd. rewrite Nat.eqb_refl. apply Hb. }
     split. { unfold upd. rewrite Nat.eqb_refl. exact Htot. }
     split. { intros c' Hne. unfold upd. destruct (Nat.eqb_spec c' c); [congruence|]. rewrite He1. reflexivity. }
-    split; [exact Hbal1|]. split; [exact Hsup1|]. unfold same_params; cbn [set_erc enabled allowed]; split; congruence.
+    split; [exact Hbal1|]. split; [exact Hsup1|]. unfold same_params; cbn [set_erc pairs allowed]; split; congruence.
   - (* first use: deploy and register *)
     unfold deploy in H. cbn [erc next] in H.
     unfold upd at 1 in H. rewrite Nat.eqb_refl in H.
-    destruct (erc_mint empty_ledger r x) as [l1|] eqn:Em; [|discriminate].
+    destruct (erc_mint (zacc e) empty_ledger r x) as [l1|] eqn:Em; [|discriminate].
     inversion H; subst s'; clear H.
+    pose proof (erc_mint_nz _ _ _ _ _ Em) as Hrz.
     apply erc_mint_spec in Em. rewrite (u256_small x Hx) in Em. destruct Em as (Hlt & Htot & Hb).
-    exists (next s). cbn [set_erc erc reg next enabled allowed bal sup].
+    split; [exact Hrz|]. split; [exact Hfunds|].
+    exists (next s). cbn [set_erc erc reg next pairs allowed bal sup].
     rewrite He3 in *.
     split. { unfold upd. rewrite Nat.eqb_refl. reflexivity. }
     split. { right. repeat split; congruence. }
@@ -296,13 +462,13 @@ Proof.
     split. { intros a. unfold upd. rewrite Nat.eqb_refl. apply Hb. }
     split. { unfold upd. rewrite Nat.eqb_refl. exact Htot. }
     split. { intros c' Hne. unfold upd. destruct (Nat.eqb_spec c' (next s)); [congruence|]. rewrite He1. reflexivity. }
-    split; [exact Hbal1|]. split; [exact Hsup1|]. unfold same_params; cbn [set_erc enabled allowed]; split; congruence.
+    split; [exact Hbal1|]. split; [exact Hsup1|]. unfold same_params; cbn [set_erc pairs allowed]; split; congruence.
 Qed.
 
 (* ConvertCosmosCoinFromERC20 *)
 Lemma conv_cosmos_from_erc20_spec e s i r d x s' :
   conv_cosmos_from_erc20 e s i r d x = Ok s' tt -> 0 <= x < U256 ->
-  exists c, reg s d = Some c /\ blocked e r = false /\ x <= ebal (erc s c) i /\
+  exists c, reg s d = Some c /\ i <> zacc e /\ blocked e r = false /\ x <= ebal (erc s c) i /\
     (x = 0 \/ x <= bal s (macc e) d) /\
     (forall a, ebal (erc s' c) a = ebal (erc s c) a - dlt (Nat.eqb a i) x) /\
     etot (erc s' c) = etot (erc s c) - x /\
@@ -314,14 +480,15 @@ Proof.
   intros H Hx. unfold conv_cosmos_from_erc20 in H.
   destruct (reg s d) as [c|] eqn:Er; [|discriminate].
   destruct (Z.ltb_spec (ebal (erc s c) i) x) as [|Hge]; [discriminate|].
-  destruct (erc_burn (erc s c) i x) as [l1|] eqn:Eb; [|discriminate].
+  destruct (erc_burn (zacc e) (erc s c) i x) as [l1|] eqn:Eb; [|discriminate].
   destruct (send_mod_to_acc e (set_erc s c l1) r d x) as [s2|] eqn:Es; [|discriminate].
   inversion H; subst s2; clear H.
+  pose proof (erc_burn_nz _ _ _ _ _ Eb) as Hiz.
   apply erc_burn_spec in Eb. rewrite (u256_small x Hx) in Eb. destruct Eb as (_ & Htot & Hb).
   apply send_mod_to_acc_spec in Es. destruct Es as (Hblk & Es).
   apply bank_send_spec in Es. destruct Es as (Hfunds & (He1 & He2 & He3 & He4 & He5) & Hsup & Hbal).
-  cbn [set_erc erc reg next enabled allowed bal sup] in *.
-  exists c. split; [reflexivity|]. split; [exact Hblk|]. split; [exact Hge|]. split; [exact Hfunds|].
+  cbn [set_erc erc reg next pairs allowed bal sup] in *.
+  exists c. split; [reflexivity|]. split; [exact Hiz|]. split; [exact Hblk|]. split; [exact Hge|]. split; [exact Hfunds|].
   split. { intros a. rewrite He1. unfold upd. rewrite Nat.eqb_refl. apply Hb. }
   split. { rewrite He1. unfold upd. rewrite Nat.eqb_refl. exact Htot. }
   split. { intros c' Hne. rewrite He1. unfold upd. destruct (Nat.eqb_spec c' c); [congruence|reflexivity]. }
@@ -332,8 +499,9 @@ Qed.
 
 Definition env_wf (e : env) : Prop :=
   blocked e (macc e) = true /\
-  forall c c', (c < npair e)%nat -> (c' < npair e)%nat ->
-               pair_denom e c = pair_denom e c' -> c = c'.
+  (forall c c', (c < npair e)%nat -> (c' < npair e)%nat ->
+                pair_denom e c = pair_denom e c' -> c = c') /\
+  zacc e <> macc e.
 
 Definition Inv (e : env) (s : state) : Prop :=
   (npair e <= next s)%nat /\
@@ -342,44 +510,91 @@ Definition Inv (e : env) (s : state) : Prop :=
   (* cosmos-native coins: module account balance = total supply of the wrapper
      (0 for a denom without a wrapper) *)
   (forall d, bal s (macc e) d = etot (wl s d)) /\
-  (* EVM-native pairs of the universe: coin supply, scaled, is covered by the
-     tokens held by the module's EVM address *)
-  (forall c, (c < npair e)%nat ->
-     sup s (pair_denom e c) * kf e (pair_denom e c) <= ebal (erc s c) (macc e)).
+  (* EVM-native pairs of the table (OpenZeppelin bytecode): coin supply, scaled, is
+     covered by the tokens held by the module's EVM address ... *)
+  (forall c, (c < npair e)%nat -> kind e c = Oz ->
+     sup s (pair_denom e c) * kf e (pair_denom e c) <= ebal (erc s c) (macc e)) /\
+  (* ... and nobody holds an allowance over them *)
+  (forall c, (c < npair e)%nat -> kind e c = Oz -> forall a, eallow (erc s c) (macc e) a = 0) /\
+  (* table contracts whose transfer emits Approval: no coin of their denom exists *)
+  (forall c, (c < npair e)%nat -> kind e c = Refund -> sup s (pair_denom e c) = 0) /\
+  (* the enabled pairs are pairs of the table *)
+  Forall (on_table e) (pairs s).
 
-Definition op_wf (e : env) (o : op) : Prop := signer o <> Some (macc e).
+(* the module account and the zero address sign nothing (they have no key);
+   governance proposes pair lists which, when they pass validation, consist of
+   pairs of the table *)
+Definition op_wf (e : env) (o : op) : Prop :=
+  signer o <> Some (macc e) /\ signer o <> Some (zacc e) /\
+  match o with
+  | SetParams ps _ => forall l, valid_pairs ps = Some l -> Forall (on_table e) l
+  | _ => True
+  end.
 
-(* the invariant only reads: next, reg, the ledgers, the module's bank balances, the supplies *)
+Lemma kind_refund_lt e c : kind e c = Refund -> (c < npair e)%nat.
+Proof. unfold kind. destruct (Nat.ltb_spec c (npair e)); [auto|discriminate]. Qed.
+
+Lemma kind_wrapper e c : (npair e <= c)%nat -> kind e c = Oz.
+Proof. unfold kind. destruct (Nat.ltb_spec c (npair e)); [lia|reflexivity]. Qed.
+
+(* the invariant only reads: next, reg, the ledgers, the module's bank balances, the supplies, the pairs *)
 Lemma inv_ext e s s' : Inv e s ->
   next s' = next s -> reg s' = reg s -> erc s' = erc s ->
   (forall d, bal s' (macc e) d = bal s (macc e) d) -> (forall d, sup s' d = sup s d) ->
+  Forall (on_table e) (pairs s') ->
   Inv e s'.
 Proof.
-  intros (I1 & I2 & I3 & I4 & I5) Hn Hr He Hb Hs. unfold Inv, wl. rewrite Hn, Hr, He.
-  repeat split; try assumption.
-  - apply (I2 d c H).
-  - apply (I2 d c H).
-  - intros d. rewrite Hb. apply I4.
-  - intros c Hc. rewrite Hs. apply I5. exact Hc.
+  intros (I1 & I2 & I3 & I4 & I5 & I6 & I7 & I8) Hn Hr He Hb Hs Hp. unfold Inv, wl. rewrite Hn, Hr, He.
+  split; [exact I1|]. split; [exact I2|]. split; [exact I3|].
+  split. { intros d. rewrite Hb. apply I4. }
+  split. { intros c Hc Hk. rewrite Hs. apply I5; assumption. }
+  split; [exact I6|].
+  split. { intros c Hc Hk. rewrite Hs. apply I7; assumption. }
+  exact Hp.
 Qed.
 
-(* replacing the ledger of one contract: the total of a wrapper must not change,
-   the module's holding of a pair token must not shrink *)
-Lemma inv_set_erc e s c l : Inv e s ->
+(* replacing the ledger of one OpenZeppelin contract: the total of a wrapper must not
+   change, the module's holding of a pair token must not shrink and nobody may
+   get an allowance over it *)
+Lemma inv_set_erc e s c l : Inv e s -> kind e c = Oz ->
   ((npair e <= c)%nat -> etot l = etot (erc s c)) ->
   ((c < npair e)%nat -> ebal (erc s c) (macc e) <= ebal l (macc e)) ->
+  ((c < npair e)%nat -> forall a, eallow l (macc e) a = 0) ->
   Inv e (set_erc s c l).
 Proof.
-  intros (I1 & I2 & I3 & I4 & I5) Ht Hb. unfold Inv, wl. cbn [set_erc next reg erc bal sup].
-  repeat split; try assumption.
-  - apply (I2 d c0 H).
-  - apply (I2 d c0 H).
-  - intros d. rewrite I4. unfold wl. destruct (reg s d) as [c0|] eqn:Er; [|reflexivity].
+  intros (I1 & I2 & I3 & I4 & I5 & I6 & I7 & I8) Hk Ht Hb Ha. unfold Inv, wl.
+  cbn [set_erc next reg erc bal sup pairs].
+  split; [exact I1|]. split; [exact I2|]. split; [exact I3|].
+  split.
+  { intros d. rewrite I4. unfold wl. destruct (reg s d) as [c0|] eqn:Er; [|reflexivity].
     unfold upd. destruct (Nat.eqb_spec c0 c) as [->|]; [|reflexivity].
-    symmetry. apply Ht. apply (I2 d c Er).
-  - intros c0 Hc0. unfold upd. destruct (Nat.eqb_spec c0 c) as [->|].
-    + specialize (I5 c Hc0). specialize (Hb Hc0). lia.
-    + apply I5. exact Hc0.
+    symmetry. apply Ht. apply (I2 d c Er). }
+  split.
+  { intros c0 Hc0 Hk0. unfold upd. destruct (Nat.eqb_spec c0 c) as [->|].
+    - specialize (I5 c Hc0 Hk0). specialize (Hb Hc0). lia.
+    - apply I5; assumption. }
+  split.
+  { intros c0 Hc0 Hk0 a. unfold upd. destruct (Nat.eqb_spec c0 c) as [->|].
+    - apply Ha. exact Hc0.
+    - apply I6; assumption. }
+  split; [exact I7|exact I8].
+Qed.
+
+(* the ledger of a table contract with the adversarial bytecode is unconstrained *)
+Lemma inv_set_erc_refund e s c l : Inv e s -> kind e c = Refund -> Inv e (set_erc s c l).
+Proof.
+  intros (I1 & I2 & I3 & I4 & I5 & I6 & I7 & I8) Hk. pose proof (kind_refund_lt e c Hk) as Hc.
+  unfold Inv, wl. cbn [set_erc next reg erc bal sup pairs].
+  split; [exact I1|]. split; [exact I2|]. split; [exact I3|].
+  split.
+  { intros d. rewrite I4. unfold wl. destruct (reg s d) as [c0|] eqn:Er; [|reflexivity].
+    unfold upd. destruct (Nat.eqb_spec c0 c) as [->|]; [|reflexivity].
+    specialize (I2 d c Er). lia. }
+  split.
+  { intros c0 Hc0 Hk0. unfold upd. destruct (Nat.eqb_spec c0 c) as [->|]; [congruence|]. apply I5; assumption. }
+  split.
+  { intros c0 Hc0 Hk0 a. unfold upd. destruct (Nat.eqb_spec c0 c) as [->|]; [congruence|]. apply I6; assumption. }
+  split; [exact I7|exact I8].
 Qed.
 
 Lemma wl_frame e s s' d : Inv e s -> reg s' = reg s ->
@@ -392,74 +607,100 @@ Qed.
 Lemma blocked_not_module e r : env_wf e -> blocked e r = false -> r <> macc e.
 Proof. intros [Hm _] Hr ->. congruence. Qed.
 
+Lemma on_table_in e s c d : Inv e s -> In (c, d) (pairs s) -> (c < npair e)%nat /\ d = pair_denom e c.
+Proof.
+  intros (_ & _ & _ & _ & _ & _ & _ & I8) Hin. rewrite Forall_forall in I8. exact (I8 (c, d) Hin).
+Qed.
+
 Lemma inv_conv_erc20_to_coin e s i r c x s' :
   env_wf e -> Inv e s -> i <> macc e ->
   conv_erc20_to_coin e s i r c x = Ok s' tt -> Inv e s'.
 Proof.
-  intros Hwf HI Hi H. pose proof HI as (I1 & I2 & I3 & I4 & I5).
-  apply conv_erc20_to_coin_spec in H. cbv zeta in H.
-  destruct H as (Hc & Hen & Hblk & _ & Hlk & Hle & Hb & Htot & Hoth & Hbal & Hsup & Hr & Hn & _).
+  intros Hwf HI Hi H. pose proof HI as (I1 & I2 & I3 & I4 & I5 & I6 & I7 & I8).
+  apply conv_erc20_to_coin_spec in H. destruct H as (d & Hp & H). cbv zeta in H.
+  apply pair_of_ctr_some in Hp. destruct (on_table_in e s c d HI Hp) as [Hc ->].
+  destruct H as (_ & Hk & _ & _ & Hblk & _ & Hlk & Hle & Hb & Htot & Hal & Hoth & Hbal & Hsup & Hr & Hn & (Hpp & _)).
   pose proof (blocked_not_module e r Hwf Hblk) as Hrm.
   assert (Hframe : forall c0, (npair e <= c0)%nat -> erc s' c0 = erc s c0).
   { intros c0 Hc0. apply Hoth. lia. }
-  unfold Inv. rewrite Hn, Hr.
+  unfold Inv. rewrite Hn, Hr, Hpp.
   split; [exact I1|]. split; [exact I2|]. split; [exact I3|]. split.
-  - intros d. rewrite (wl_frame e s s' d HI Hr Hframe), Hbal, <- I4. unfold dlt.
-    destruct (Nat.eqb_spec (macc e) r); [congruence|]. cbn [andb]. lia.
-  - intros c0 Hc0. rewrite Hsup. destruct (Nat.eqb_spec c0 c) as [->|Hne].
-    + rewrite Nat.eqb_refl, Hb. unfold dlt at 1. rewrite Nat.eqb_refl.
+  { intros d. rewrite (wl_frame e s s' d HI Hr Hframe), Hbal, <- I4. unfold dlt.
+    destruct (Nat.eqb_spec (macc e) r); [congruence|]. cbn [andb]. lia. }
+  split.
+  { intros c0 Hc0 Hk0. rewrite Hsup. destruct (Nat.eqb_spec c0 c) as [->|Hne].
+    - rewrite Nat.eqb_refl, Hb. unfold dlt at 1. rewrite Nat.eqb_refl.
       destruct (Nat.eqb_spec (macc e) i); [congruence|]. unfold dlt.
-      specialize (I5 c Hc). lia.
-    + rewrite (Hoth c0 Hne). destruct (Nat.eqb_spec (pair_denom e c0) (pair_denom e c)) as [Heq|].
-      * exfalso. apply Hne. destruct Hwf as [_ Hinj]. apply Hinj; assumption.
-      * unfold dlt. rewrite Z.add_0_r. apply I5. exact Hc0.
+      specialize (I5 c Hc Hk). lia.
+    - rewrite (Hoth c0 Hne). destruct (Nat.eqb_spec (pair_denom e c0) (pair_denom e c)) as [Heq|].
+      + exfalso. apply Hne. destruct Hwf as (_ & Hinj & _). apply Hinj; assumption.
+      + unfold dlt. rewrite Z.add_0_r. apply I5; assumption. }
+  split.
+  { intros c0 Hc0 Hk0 a. destruct (Nat.eqb_spec c0 c) as [->|Hne].
+    - rewrite Hal. apply I6; assumption.
+    - rewrite (Hoth c0 Hne). apply I6; assumption. }
+  split; [|exact I8].
+  intros c0 Hc0 Hk0. rewrite Hsup. destruct (Nat.eqb_spec (pair_denom e c0) (pair_denom e c)) as [Heq|].
+  - exfalso. destruct Hwf as (_ & Hinj & _). assert (c0 = c) by (apply Hinj; assumption). congruence.
+  - unfold dlt. rewrite Z.add_0_r. apply I7; assumption.
 Qed.
 
 Lemma inv_conv_coin_to_erc20 e s i r d x s' :
   env_wf e -> Inv e s -> i <> macc e -> 0 <= x ->
   conv_coin_to_erc20 e s i r d x = Ok s' tt -> Inv e s'.
 Proof.
-  intros Hwf HI Hi Hx H. pose proof HI as (I1 & I2 & I3 & I4 & I5).
+  intros Hwf HI Hi Hx H. pose proof HI as (I1 & I2 & I3 & I4 & I5 & I6 & I7 & I8).
   apply conv_coin_to_erc20_spec in H; [|exact Hi]. destruct H as (c & Hp & H). cbv zeta in H.
-  apply pair_of_denom_some in Hp. destruct Hp as (Hc & Hen & Hd). subst d.
-  destruct H as (_ & Hun & Hle & Hb & Htot & Hoth & Hbal & Hsup & Hr & Hn & _).
+  apply pair_of_denom_some in Hp. destruct (on_table_in e s c d HI Hp) as [Hc ->].
+  destruct H as (_ & Hk & _ & _ & _ & Hun & Hle & Hb & Htot & Hal & Hoth & Hbal & Hsup & Hr & Hn & (Hpp & _)).
   assert (Hframe : forall c0, (npair e <= c0)%nat -> erc s' c0 = erc s c0).
   { intros c0 Hc0. apply Hoth. lia. }
-  unfold Inv. rewrite Hn, Hr.
+  unfold Inv. rewrite Hn, Hr, Hpp.
   split; [exact I1|]. split; [exact I2|]. split; [exact I3|]. split.
-  - intros d. rewrite (wl_frame e s s' d HI Hr Hframe), Hbal, <- I4. unfold dlt.
-    destruct (Nat.eqb_spec (macc e) i); [congruence|]. cbn [andb]. lia.
-  - intros c0 Hc0. rewrite Hsup. destruct (Nat.eqb_spec c0 c) as [->|Hne].
-    + rewrite Nat.eqb_refl, Hb. rewrite Nat.eqb_refl. unfold dlt at 1 2.
-      specialize (I5 c Hc). unfold dlt. destruct (Nat.eqb (macc e) r); lia.
-    + rewrite (Hoth c0 Hne). destruct (Nat.eqb_spec (pair_denom e c0) (pair_denom e c)) as [Heq|].
-      * exfalso. apply Hne. destruct Hwf as [_ Hinj]. apply Hinj; assumption.
-      * unfold dlt. rewrite Z.sub_0_r. apply I5. exact Hc0.
+  { intros d. rewrite (wl_frame e s s' d HI Hr Hframe), Hbal, <- I4. unfold dlt.
+    destruct (Nat.eqb_spec (macc e) i); [congruence|]. cbn [andb]. lia. }
+  split.
+  { intros c0 Hc0 Hk0. rewrite Hsup. destruct (Nat.eqb_spec c0 c) as [->|Hne].
+    - rewrite Nat.eqb_refl, Hb. rewrite Nat.eqb_refl. unfold dlt at 1 2.
+      specialize (I5 c Hc Hk). unfold dlt. destruct (Nat.eqb (macc e) r); lia.
+    - rewrite (Hoth c0 Hne). destruct (Nat.eqb_spec (pair_denom e c0) (pair_denom e c)) as [Heq|].
+      + exfalso. apply Hne. destruct Hwf as (_ & Hinj & _). apply Hinj; assumption.
+      + unfold dlt. rewrite Z.sub_0_r. apply I5; assumption. }
+  split.
+  { intros c0 Hc0 Hk0 a. destruct (Nat.eqb_spec c0 c) as [->|Hne].
+    - rewrite Hal. apply I6; assumption.
+    - rewrite (Hoth c0 Hne). apply I6; assumption. }
+  split; [|exact I8].
+  intros c0 Hc0 Hk0. rewrite Hsup. destruct (Nat.eqb_spec (pair_denom e c0) (pair_denom e c)) as [Heq|].
+  - exfalso. destruct Hwf as (_ & Hinj & _). assert (c0 = c) by (apply Hinj; assumption). congruence.
+  - unfold dlt. rewrite Z.sub_0_r. apply I7; assumption.
 Qed.
 
 Lemma inv_conv_cosmos_to_erc20 e s i r d x s' :
   env_wf e -> Inv e s -> i <> macc e -> 0 <= x < U256 ->
   conv_cosmos_to_erc20 e s i r d x = Ok s' tt -> Inv e s'.
 Proof.
-  intros Hwf HI Hi Hx H. pose proof HI as (I1 & I2 & I3 & I4 & I5).
+  intros Hwf HI Hi Hx H. pose proof HI as (I1 & I2 & I3 & I4 & I5 & I6 & I7 & I8).
   apply conv_cosmos_to_erc20_spec in H; [|exact Hx].
-  destruct H as (_ & _ & c & Hrc & Hcase & _ & _ & Htot & Hoth & Hbal & Hsup & _).
+  destruct H as (_ & _ & _ & c & Hrc & Hcase & _ & _ & Htot & Hoth & Hbal & Hsup & (Hpp & _)).
   assert (HbalM : forall d', bal s' (macc e) d' = bal s (macc e) d' + dlt (Nat.eqb d' d) x).
   { intros d'. rewrite Hbal. rewrite Nat.eqb_refl. unfold dlt.
     destruct (Nat.eqb_spec (macc e) i); [congruence|]. cbn [andb]. lia. }
   destruct Hcase as [(Er & Hr & Hn) | (Er & -> & Hr & Hn)].
   - (* existing wrapper *)
     pose proof (I2 d c Er) as Hcr.
-    unfold Inv. rewrite Hn, Hr.
+    unfold Inv. rewrite Hn, Hr, Hpp, Hsup.
     split; [exact I1|]. split; [exact I2|]. split; [exact I3|]. split.
-    + intros d'. rewrite HbalM. unfold wl at 1. rewrite Hr.
+    { intros d'. rewrite HbalM. unfold wl at 1. rewrite Hr.
       destruct (Nat.eqb_spec d' d) as [->|Hne].
-      * rewrite Er, Htot, I4. unfold dlt. lia.
-      * rewrite I4. unfold wl, dlt. destruct (reg s d') as [c'|] eqn:Er'; [|lia].
-        rewrite Hoth; [lia|]. intros ->. apply Hne. apply (I3 d' d c Er' Er).
-    + intros c0 Hc0. rewrite Hsup, Hoth; [apply I5; exact Hc0|lia].
+      - rewrite Er, Htot, I4. unfold dlt. lia.
+      - rewrite I4. unfold wl, dlt. destruct (reg s d') as [c'|] eqn:Er'; [|lia].
+        rewrite Hoth; [lia|]. intros ->. apply Hne. apply (I3 d' d c Er' Er). }
+    split. { intros c0 Hc0 Hk0. rewrite Hoth; [apply I5; assumption|lia]. }
+    split. { intros c0 Hc0 Hk0 a. rewrite Hoth; [apply I6; assumption|lia]. }
+    split; [exact I7|exact I8].
   - (* first use: fresh contract next s *)
-    unfold Inv. rewrite Hn, Hr.
+    unfold Inv. rewrite Hn, Hr, Hpp, Hsup.
     split; [lia|]. split; [|split; [|split]].
     + intros d' c'. unfold upd. destruct (Nat.eqb_spec d' d) as [->|].
       * intros E; inversion E; subst. lia.
@@ -474,27 +715,31 @@ Proof.
       * rewrite Htot, I4. unfold dlt. lia.
       * rewrite I4. unfold wl, dlt. destruct (reg s d') as [c'|] eqn:Er'; [|lia].
         rewrite Hoth; [lia|]. specialize (I2 d' c' Er'). lia.
-    + intros c0 Hc0. rewrite Hsup, Hoth; [apply I5; exact Hc0|lia].
+    + split. { intros c0 Hc0 Hk0. rewrite Hoth; [apply I5; assumption|lia]. }
+      split. { intros c0 Hc0 Hk0 a. rewrite Hoth; [apply I6; assumption|lia]. }
+      split; [exact I7|exact I8].
 Qed.
 
 Lemma inv_conv_cosmos_from_erc20 e s i r d x s' :
   env_wf e -> Inv e s -> 0 <= x < U256 ->
   conv_cosmos_from_erc20 e s i r d x = Ok s' tt -> Inv e s'.
 Proof.
-  intros Hwf HI Hx H. pose proof HI as (I1 & I2 & I3 & I4 & I5).
+  intros Hwf HI Hx H. pose proof HI as (I1 & I2 & I3 & I4 & I5 & I6 & I7 & I8).
   apply conv_cosmos_from_erc20_spec in H; [|exact Hx].
-  destruct H as (c & Er & Hblk & _ & _ & _ & Htot & Hoth & Hbal & Hsup & Hr & Hn & _).
+  destruct H as (c & Er & _ & Hblk & _ & _ & _ & Htot & Hoth & Hbal & Hsup & Hr & Hn & (Hpp & _)).
   pose proof (blocked_not_module e r Hwf Hblk) as Hrm.
   pose proof (I2 d c Er) as Hcr.
-  unfold Inv. rewrite Hn, Hr.
+  unfold Inv. rewrite Hn, Hr, Hpp, Hsup.
   split; [exact I1|]. split; [exact I2|]. split; [exact I3|]. split.
-  - intros d'. rewrite Hbal. rewrite Nat.eqb_refl. unfold wl at 1. rewrite Hr.
+  { intros d'. rewrite Hbal. rewrite Nat.eqb_refl. unfold wl at 1. rewrite Hr.
     destruct (Nat.eqb_spec (macc e) r); [congruence|]. cbn [andb]. unfold dlt at 2.
     destruct (Nat.eqb_spec d' d) as [->|Hne]; unfold dlt.
-    + rewrite Er, Htot, I4. unfold wl. rewrite Er. lia.
-    + rewrite I4. unfold wl. destruct (reg s d') as [c'|] eqn:Er'; [|lia].
-      rewrite Hoth; [lia|]. intros ->. apply Hne. apply (I3 d' d c Er' Er).
-  - intros c0 Hc0. rewrite Hsup, Hoth; [apply I5; exact Hc0|lia].
+    - rewrite Er, Htot, I4. unfold wl. rewrite Er. lia.
+    - rewrite I4. unfold wl. destruct (reg s d') as [c'|] eqn:Er'; [|lia].
+      rewrite Hoth; [lia|]. intros ->. apply Hne. apply (I3 d' d c Er' Er). }
+  split. { intros c0 Hc0 Hk0. rewrite Hoth; [apply I5; assumption|lia]. }
+  split. { intros c0 Hc0 Hk0 a. rewrite Hoth; [apply I6; assumption|lia]. }
+  split; [exact I7|exact I8].
 Qed.
 
 Lemma amount_ok_range dr x : amount_ok dr x = true -> 0 <= x < U256.
@@ -506,9 +751,9 @@ Qed.
 Lemma step_inv e s o s' : env_wf e -> Inv e s -> op_wf e o ->
   step e s o = Ok s' tt -> Inv e s'.
 Proof.
-  intros Hwf HI Hs H. unfold op_wf in Hs.
-  destruct o as [dr i r d x|dr i r c x|dr i r d x|dr i r d x|c f t x|c t x|f t d x|en al];
-    cbn [step signer] in H, Hs.
+  intros Hwf HI (Hs & Hsz & Hgov) H. pose proof HI as (I1 & I2 & I3 & I4 & I5 & I6 & I7 & I8).
+  destruct o as [dr i r d x|dr i r c x|dr i r d x|dr i r d x|c f t x|c t x|f t d x|ps ts|c o sp x|c sp f t x];
+    cbn [step signer] in H, Hs, Hsz.
   - destruct (amount_ok dr x) eqn:Ea; [|discriminate]. apply amount_ok_range in Ea.
     apply (inv_conv_coin_to_erc20 e s i r d x s' Hwf HI); [congruence|lia|exact H].
   - destruct (amount_ok dr x) eqn:Ea; [|discriminate].
@@ -519,35 +764,71 @@ Proof.
     apply (inv_conv_cosmos_from_erc20 e s i r d x s' Hwf HI Ea H).
   - (* ERC20 transfer by a holder other than the module *)
     destruct (Nat.leb (next s) c); [inversion H; subst; exact HI|].
-    destruct (erc_transfer (erc s c) f t x) as [l|] eqn:Et; [|discriminate].
-    inversion H; subst s'; clear H.
+    destruct (tok_transfer e c (erc s c) f t x) as [l|] eqn:Et; [|discriminate].
+    inversion H; subst s'; clear H. unfold tok_transfer in Et.
+    destruct (kind e c) eqn:Hk; [|apply inv_set_erc_refund; assumption].
+    pose proof (erc_transfer_allow _ _ _ _ _ _ Et) as Hal.
     apply erc_transfer_spec in Et. destruct Et as (_ & Htot & Hb).
-    apply inv_set_erc; [exact HI|intros _; exact Htot|].
-    intros _. rewrite Hb. unfold dlt. destruct (Nat.eqb_spec (macc e) f); [congruence|].
-    pose proof (u256_range x). destruct (Nat.eqb (macc e) t); lia.
+    apply inv_set_erc; [exact HI|exact Hk|intros _; exact Htot| |].
+    + intros _. rewrite Hb. unfold dlt. destruct (Nat.eqb_spec (macc e) f); [congruence|].
+      pose proof (u256_range x). destruct (Nat.eqb (macc e) t); lia.
+    + intros Hc a. rewrite Hal. apply I6; assumption.
   - (* minting of an EVM-native token by its owner *)
     destruct (Nat.leb (next s) c); [inversion H; subst; exact HI|].
     destruct (Nat.ltb_spec c (npair e)) as [Hc|]; [|discriminate]. cbn [negb] in H.
-    destruct (erc_mint (erc s c) t x) as [l|] eqn:Em; [|discriminate].
-    inversion H; subst s'; clear H.
-    apply erc_mint_spec in Em. destruct Em as (_ & _ & Hb).
-    apply inv_set_erc; [exact HI|lia|].
-    intros _. rewrite Hb. unfold dlt. pose proof (u256_range x). destruct (Nat.eqb (macc e) t); lia.
+    destruct (kind e c) eqn:Hk.
+    + destruct (erc_mint (zacc e) (erc s c) t x) as [l|] eqn:Em; [|discriminate].
+      inversion H; subst s'; clear H.
+      pose proof (erc_mint_allow _ _ _ _ _ Em) as Hal.
+      apply erc_mint_spec in Em. destruct Em as (_ & _ & Hb).
+      apply inv_set_erc; [exact HI|exact Hk|lia| |].
+      * intros _. rewrite Hb. unfold dlt. pose proof (u256_range x). destruct (Nat.eqb (macc e) t); lia.
+      * intros _ a. rewrite Hal. apply I6; assumption.
+    + inversion H; subst s'; clear H. apply inv_set_erc_refund; assumption.
   - (* bank MsgSend: the module account is a blocked recipient and cannot sign *)
     destruct (x <=? 0); [discriminate|].
     destruct (blocked e t) eqn:Hblk; [discriminate|].
     destruct (bank_send s f t d x) as [s1|] eqn:Es; [|discriminate].
     inversion H; subst s1; clear H.
-    apply bank_send_spec in Es. destruct Es as (_ & (He1 & He2 & He3 & _) & Hsup & Hbal).
+    apply bank_send_spec in Es. destruct Es as (_ & (He1 & He2 & He3 & He4 & _) & Hsup & Hbal).
     pose proof (blocked_not_module e t Hwf Hblk) as Htm.
     apply (inv_ext e s s' HI He3 He2 He1).
     + intros d'. rewrite Hbal. unfold dlt.
       destruct (Nat.eqb_spec (macc e) f); [congruence|].
       destruct (Nat.eqb_spec (macc e) t); [congruence|]. cbn [andb]. lia.
     + intros d'. rewrite Hsup. reflexivity.
+    + rewrite He4. exact I8.
   - (* parameter change *)
+    destruct (valid_pairs ps) as [l|] eqn:Ev; [|discriminate].
+    destruct (valid_toks ts) as [al|]; [|discriminate].
     inversion H; subst s'; clear H.
-    apply (inv_ext e s _ HI); reflexivity.
+    apply (inv_ext e s _ HI); try reflexivity. cbn [pairs]. apply Hgov. reflexivity.
+  - (* approve by an owner other than the module *)
+    destruct (Nat.leb (next s) c); [inversion H; subst; exact HI|].
+    destruct (kind e c) eqn:Hk; [|discriminate].
+    destruct (erc_approve (zacc e) (erc s c) o sp x) as [l|] eqn:Ea; [|discriminate].
+    inversion H; subst s'; clear H.
+    apply erc_approve_spec in Ea. destruct Ea as (_ & _ & Eb & Et & Eal).
+    apply inv_set_erc; [exact HI|exact Hk|intros _; exact Et|intros _; rewrite Eb; lia|].
+    intros Hc a. rewrite Eal, upd2_eq. destruct (Nat.eqb_spec (macc e) o); [congruence|].
+    cbn [andb]. apply I6; assumption.
+  - (* transferFrom by a spender other than the module *)
+    destruct (Nat.leb (next s) c); [inversion H; subst; exact HI|].
+    destruct (kind e c) eqn:Hk.
+    + destruct (erc_transfer_from (zacc e) (erc s c) sp f t x) as [l|] eqn:Et; [|discriminate].
+      inversion H; subst s'; clear H.
+      apply erc_transfer_from_spec in Et. destruct Et as (Hcov & Hle & Htot & Hb & Hal).
+      pose proof (u256_range x) as Hur.
+      apply inv_set_erc; [exact HI|exact Hk|intros _; exact Htot| |].
+      * intros Hc. rewrite Hb. unfold dlt. destruct (Nat.eqb_spec (macc e) f) as [<-|].
+        -- (* pulling from the module: its allowance to anybody is zero, so the amount is zero *)
+           rewrite (I6 c Hc Hk sp) in Hcov. destruct Hcov as [Hcov|Hcov]; [discriminate Hcov|].
+           destruct (Nat.eqb (macc e) t); lia.
+        -- destruct (Nat.eqb (macc e) t); lia.
+      * intros Hc a. destruct (Hal (macc e) a) as [->|(Hof & Hsp & -> & Hcov')]; [apply I6; assumption|].
+        subst f a. rewrite (I6 c Hc Hk sp) in *. replace (u256 x) with 0 by lia. reflexivity.
+    + destruct (rf_transfer_from (erc s c) sp f t x) as [l|]; [|discriminate].
+      inversion H; subst s'; clear H. apply inv_set_erc_refund; assumption.
 Qed.
 
 Lemma step'_inv e s o : env_wf e -> Inv e s -> op_wf e o -> Inv e (step' e s o).
@@ -563,6 +844,58 @@ Proof.
   apply step'_inv; assumption.
 Qed.
 
+(* transactions: all messages or none *)
+Lemma tx_step_inv e tx : forall s s', env_wf e -> Inv e s -> Forall (op_wf e) tx ->
+  tx_step e s tx = Ok s' tt -> Inv e s'.
+Proof.
+  induction tx as [|o r IH]; intros s s' Hwf HI Hall H; cbn [tx_step] in H.
+  - inversion H; subst. exact HI.
+  - inversion Hall; subst. destruct (step e s o) as [s1 []| |] eqn:E; try discriminate.
+    apply (IH s1 s' Hwf); [|assumption|exact H]. apply (step_inv e s o s1 Hwf HI); assumption.
+Qed.
+
+Lemma run_txs_inv e txs : forall s, env_wf e -> Inv e s -> Forall (Forall (op_wf e)) txs ->
+  Inv e (run_txs e s txs).
+Proof.
+  induction txs as [|tx r IH]; intros s Hwf HI Hall; cbn [run_txs fold_left]; [exact HI|].
+  inversion Hall; subst. apply IH; [exact Hwf| |assumption].
+  unfold tx_step'. destruct (tx_step e s tx) as [s' []| |] eqn:E; try exact HI.
+  apply (tx_step_inv e tx s s' Hwf HI); assumption.
+Qed.
+
+(* a transaction that succeeds is the sequence of its messages; one that fails changes nothing *)
+Lemma tx_step_ok_run e tx : forall s s', tx_step e s tx = Ok s' tt -> run e s tx = s'.
+Proof.
+  induction tx as [|o r IH]; intros s s' H; cbn [tx_step] in H; cbn [run fold_left].
+  - inversion H; reflexivity.
+  - destruct (step e s o) as [s1 []| |] eqn:E; try discriminate.
+    unfold step' at 2. rewrite E. apply IH. exact H.
+Qed.
+
+Lemma tx_step'_failed e s tx : (forall s' u, tx_step e s tx <> Ok s' u) -> tx_step' e s tx = s.
+Proof.
+  intros H. unfold tx_step'. destruct (tx_step e s tx) as [s' u| |] eqn:E; auto.
+  exfalso. exact (H s' u eq_refl).
+Qed.
+
+Lemma tx_step_app e tx1 tx2 : forall s,
+  tx_step e s (tx1 ++ tx2) =
+  match tx_step e s tx1 with Ok s1 _ => tx_step e s1 tx2 | Err => Err | Panic => Panic end.
+Proof.
+  induction tx1 as [|o r IH]; intros s; cbn [app tx_step]; [reflexivity|].
+  destruct (step e s o) as [s1 []| |]; [apply IH|reflexivity|reflexivity].
+Qed.
+
+(* a message that fails after earlier messages of the same transaction succeeded
+   undoes them too (e.g. a wrapper deployed by the first message) *)
+Lemma tx_step_failing_msg e tx1 o tx2 s s1 :
+  tx_step e s tx1 = Ok s1 tt -> (forall s' u, step e s1 o <> Ok s' u) ->
+  tx_step' e s (tx1 ++ o :: tx2) = s.
+Proof.
+  intros H1 Hf. unfold tx_step'. rewrite tx_step_app, H1. cbn [tx_step].
+  destruct (step e s1 o) as [s' u| |] eqn:E; [exfalso; exact (Hf s' u eq_refl)|reflexivity|reflexivity].
+Qed.
+
 (** ** the two backing statements, as consequences of the invariant *)
 Lemma cosmos_native_backed e ops s d c :
   env_wf e -> Inv e s -> Forall (op_wf e) ops ->
@@ -571,17 +904,6 @@ Lemma cosmos_native_backed e ops s d c :
 Proof.
   intros Hwf HI Hall Er. destruct (run_inv e ops s Hwf HI Hall) as (_ & _ & _ & I4 & _).
   rewrite I4. unfold wl. rewrite Er. reflexivity.
-Qed.
-
-Lemma evm_native_backed e ops s c :
-  env_wf e -> Inv e s -> Forall (op_wf e) ops ->
-  pair_enabled e (run e s ops) c = true ->
-  sup (run e s ops) (pair_denom e c) * (if is_bep3 e (pair_denom e c) then 10 ^ 10 else 1)
-    <= ebal (erc (run e s ops) c) (macc e).
-Proof.
-  intros Hwf HI Hall Hen. destruct (run_inv e ops s Hwf HI Hall) as (_ & _ & _ & _ & I5).
-  unfold pair_enabled in Hen. apply andb_prop in Hen. destruct Hen as [Hc _].
-  apply Nat.ltb_lt in Hc. exact (I5 c Hc).
 Qed.
 
 (** ** when a conversion succeeds (converse of the specs; used for the round trips) *)
@@ -598,67 +920,62 @@ Proof.
   destruct (Z.leb_spec x (bal s (macc e) d)); [eexists; reflexivity|]. lia.
 Qed.
 
-Lemma erc_transfer_ok l f t x : u256 x <= ebal l f -> exists l', erc_transfer l f t x = Some l'.
+Lemma erc_transfer_ok z l f t x : f <> z -> t <> z -> u256 x <= ebal l f ->
+  exists l', erc_transfer z l f t x = Some l'.
 Proof.
-  intros H. unfold erc_transfer. destruct (Z.leb_spec (u256 x) (ebal l f)); [eexists; reflexivity|lia].
+  intros Hf Ht H. unfold erc_transfer.
+  destruct (Nat.eqb_spec f z); [congruence|]. destruct (Nat.eqb_spec t z); [congruence|]. cbn [orb].
+  destruct (Z.leb_spec (u256 x) (ebal l f)); [eexists; reflexivity|lia].
 Qed.
 
-Lemma erc_burn_ok l f x : u256 x <= ebal l f -> exists l', erc_burn l f x = Some l'.
+Lemma erc_burn_ok z l f x : f <> z -> u256 x <= ebal l f -> exists l', erc_burn z l f x = Some l'.
 Proof.
-  intros H. unfold erc_burn. destruct (Z.leb_spec (u256 x) (ebal l f)); [eexists; reflexivity|lia].
+  intros Hf H. unfold erc_burn. destruct (Nat.eqb_spec f z); [congruence|].
+  destruct (Z.leb_spec (u256 x) (ebal l f)); [eexists; reflexivity|lia].
 Qed.
 
-Lemma erc_mint_ok l t x : etot l + u256 x < U256 -> exists l', erc_mint l t x = Some l'.
+Lemma erc_mint_ok z l t x : t <> z -> etot l + u256 x < U256 -> exists l', erc_mint z l t x = Some l'.
 Proof.
-  intros H. unfold erc_mint. destruct (Z.ltb_spec (etot l + u256 x) U256); [eexists; reflexivity|lia].
+  intros Ht H. unfold erc_mint. destruct (Nat.eqb_spec t z); [congruence|].
+  destruct (Z.ltb_spec (etot l + u256 x) U256); [eexists; reflexivity|lia].
 Qed.
 
 Lemma conv_cosmos_from_erc20_ok e s i r d x c :
-  reg s d = Some c -> blocked e r = false -> 0 <= x < U256 ->
+  reg s d = Some c -> i <> zacc e -> blocked e r = false -> 0 <= x < U256 ->
   x <= ebal (erc s c) i -> (x = 0 \/ x <= bal s (macc e) d) ->
   exists s', conv_cosmos_from_erc20 e s i r d x = Ok s' tt.
 Proof.
-  intros Er Hblk Hx Hle Hm. unfold conv_cosmos_from_erc20. rewrite Er.
+  intros Er Hiz Hblk Hx Hle Hm. unfold conv_cosmos_from_erc20. rewrite Er.
   destruct (Z.ltb_spec (ebal (erc s c) i) x); [lia|].
-  destruct (erc_burn_ok (erc s c) i x) as [l1 El]; [rewrite u256_small by exact Hx; exact Hle|].
+  destruct (erc_burn_ok (zacc e) (erc s c) i x Hiz) as [l1 El]; [rewrite u256_small by exact Hx; exact Hle|].
   rewrite El. unfold send_mod_to_acc. rewrite Hblk.
   destruct (bank_send_ok (set_erc s c l1) (macc e) r d x) as [s2 Es]; [exact Hm|].
   rewrite Es. eexists; reflexivity.
 Qed.
 
-Lemma pair_of_denom_complete e s c : env_wf e -> (c < npair e)%nat -> enabled s c = true ->
-  pair_of_denom e s (pair_denom e c) = Some c.
-Proof.
-  intros [_ Hinj] Hc Hen. unfold pair_of_denom.
-  destruct (find _ (seq 0 (npair e))) as [c'|] eqn:Ef.
-  - apply find_some in Ef. destruct Ef as [Hin Hb]. apply in_seq in Hin.
-    apply andb_prop in Hb. destruct Hb as [_ Hd]. apply Nat.eqb_eq in Hd.
-    f_equal. apply Hinj; [lia|exact Hc|exact Hd].
-  - exfalso. pose proof (find_none _ _ Ef c) as Hn.
-    assert (Hin : In c (seq 0 (npair e))) by (apply in_seq; lia).
-    specialize (Hn Hin). cbn beta in Hn. rewrite Hen, Nat.eqb_refl in Hn. discriminate.
-Qed.
-
 Lemma conv_coin_to_erc20_ok e s i r d x c :
-  pair_of_denom e s d = Some c -> r <> macc e -> 0 <= x * kf e d < U256 ->
+  pair_of_denom s d = Some c -> (c < next s)%nat -> kind e c = Oz ->
+  r <> zacc e -> macc e <> zacc e -> r <> macc e -> 0 <= x * kf e d < U256 ->
   (x = 0 \/ x <= bal s i d) ->
   (x = 0 \/ x <= bal s (macc e) d + (if Nat.eqb i (macc e) then 0 else x)) ->
   x * kf e d <= ebal (erc s c) (macc e) ->
   exists s', conv_coin_to_erc20 e s i r d x = Ok s' tt.
 Proof.
-  intros Hp Hr Hu Hfunds Hm Hle. unfold conv_coin_to_erc20. rewrite Hp.
+  intros Hp Hcn Hk Hrz Hmz Hr Hu Hfunds Hm Hle. unfold conv_coin_to_erc20. rewrite Hp.
   destruct (bank_send_ok s i (macc e) d x Hfunds) as [s1 E1]. rewrite E1.
-  apply bank_send_spec in E1. destruct E1 as (_ & (He1 & _) & _ & Hbal1).
+  apply bank_send_spec in E1. destruct E1 as (_ & (He1 & _ & He3 & _) & _ & Hbal1).
   destruct (bank_burn_ok e s1 d x) as [s2 E2].
   { destruct Hm as [->|Hm]; [left; reflexivity|right]. rewrite Hbal1, !Nat.eqb_refl. unfold dlt. cbn [andb].
     destruct (Nat.eqb_spec (macc e) i) as [<-|]; [rewrite Nat.eqb_refl in Hm|]; cbn [andb].
     - lia.
     - destruct (Nat.eqb_spec i (macc e)); [congruence|]. lia. }
-  rewrite E2. apply bank_burn_spec in E2. destruct E2 as (_ & (Hf1 & _) & _ & _).
+  rewrite E2. apply bank_burn_spec in E2. destruct E2 as (_ & (Hf1 & _ & Hf3 & _) & _ & _).
   assert (Hun : (if is_bep3 e d then x * K10 else x) = x * kf e d).
   { unfold kf. destruct (is_bep3 e d); lia. }
   rewrite Hun. assert (Herc : erc s2 c = erc s c) by (rewrite Hf1, He1; reflexivity). rewrite Herc.
-  destruct (erc_transfer_ok (erc s c) (macc e) r (x * kf e d)) as [l1 Et].
+  destruct (Nat.leb_spec (next s2) c); [lia|].
+  unfold tok_transfer, emits_approval. rewrite Hk.
+  destruct (erc_transfer_ok (zacc e) (erc s c) (macc e) r (x * kf e d) Hmz Hrz) as [l1 Et].
   { rewrite u256_small by exact Hu. exact Hle. }
   rewrite Et. apply erc_transfer_spec in Et. destruct Et as (_ & _ & Hb).
   rewrite Hb, Nat.eqb_refl. rewrite u256_small by exact Hu. unfold dlt.
@@ -687,16 +1004,16 @@ Proof.
   intros Hwf (Hnb & Hne & _) Hx Hblk H1.
   pose proof (blocked_not_module e i Hwf Hblk) as Him.
   apply conv_cosmos_to_erc20_spec in H1; [|exact Hx].
-  destruct H1 as (_ & _ & c & Hrc & Hcase & _ & Hb1 & Ht1 & Ho1 & Hbal1 & Hsup1 & _).
+  destruct H1 as (_ & Hrz & _ & c & Hrc & Hcase & _ & Hb1 & Ht1 & Ho1 & Hbal1 & Hsup1 & _).
   assert (Hwl0 : forall a, 0 <= ebal (wl s d) a).
   { intros a. unfold wl. destruct (reg s d); [apply Hne|cbn; lia]. }
-  destruct (conv_cosmos_from_erc20_ok e s1 r i d x c Hrc Hblk Hx) as [s2 H2].
+  destruct (conv_cosmos_from_erc20_ok e s1 r i d x c Hrc Hrz Hblk Hx) as [s2 H2].
   { rewrite Hb1, Nat.eqb_refl. unfold dlt. specialize (Hwl0 r). lia. }
   { right. rewrite Hbal1, !Nat.eqb_refl. unfold dlt.
     destruct (Nat.eqb_spec (macc e) i); [congruence|]. cbn [andb]. specialize (Hnb (macc e) d). lia. }
   exists s2. split; [exact H2|].
   apply conv_cosmos_from_erc20_spec in H2; [|exact Hx].
-  destruct H2 as (c2 & Hrc2 & _ & _ & _ & Hb2 & Ht2 & Ho2 & Hbal2 & Hsup2 & Hr2 & _).
+  destruct H2 as (c2 & Hrc2 & _ & _ & _ & _ & Hb2 & Ht2 & Ho2 & Hbal2 & Hsup2 & Hr2 & _).
   assert (c2 = c) by congruence. subst c2.
   assert (Hwl2 : wl s2 d = erc s2 c) by (unfold wl; rewrite Hr2, Hrc; reflexivity).
   split. { intros a d'. rewrite Hbal2, Hbal1. unfold dlt.
@@ -711,9 +1028,9 @@ Qed.
 (* ERC20 -> coin -> ERC20 for an EVM-native pair: the dust never left, so
    converting back the minted coins restores everything *)
 Lemma round_trip_evm e s i r c x s1 :
-  env_wf e -> nonneg s -> 0 <= x -> i <> macc e ->
+  env_wf e -> nonneg s -> pairs_nodup (pairs s) -> 0 <= x -> i <> macc e ->
   conv_erc20_to_coin e s i r c x = Ok s1 tt ->
-  let d := pair_denom e c in
+  exists d, pair_of_ctr s c = Some d /\
   let mint := if is_bep3 e d then x / K10 else x in
   exists s2, conv_coin_to_erc20 e s1 r i d mint = Ok s2 tt /\
     (forall a d', bal s2 a d' = bal s a d') /\ (forall d', sup s2 d' = sup s d') /\
@@ -721,16 +1038,17 @@ Lemma round_trip_evm e s i r c x s1 :
     (forall c', etot (erc s2 c') = etot (erc s c')) /\
     reg s2 = reg s /\ next s2 = next s.
 Proof.
-  intros Hwf (Hnb & Hne & _) Hx Him H1 d mint.
-  apply conv_erc20_to_coin_spec in H1. cbv zeta in H1. fold d in H1. fold mint in H1.
-  destruct H1 as (Hc & Hen & Hblk & _ & Hlk & Hle & Hb1 & Ht1 & Ho1 & Hbal1 & Hsup1 & Hr1 & Hn1 & (Hp1 & _)).
+  intros Hwf (Hnb & Hne & _) Hnd Hx Him H1.
+  apply conv_erc20_to_coin_spec in H1. destruct H1 as (d & Hpc & H1). exists d. split; [exact Hpc|].
+  intros mint. cbv zeta in H1. fold mint in H1.
+  destruct H1 as (Hcn & Hk & Hiz & Hmz & Hblk & _ & Hlk & Hle & Hb1 & Ht1 & _ & Ho1 & Hbal1 & Hsup1 & Hr1 & Hn1 & (Hp1 & _)).
   pose proof (blocked_not_module e r Hwf Hblk) as Hrm.
   assert (Hmint : 0 <= mint).
   { unfold mint. destruct (is_bep3 e d); [apply Z.div_pos; [lia|exact K10_pos]|lia]. }
-  assert (Hp : pair_of_denom e s1 d = Some c).
-  { apply pair_of_denom_complete; [exact Hwf|exact Hc|]. rewrite Hp1. exact Hen. }
-  destruct (conv_coin_to_erc20_ok e s1 r i d mint c Hp Him) as [s2 H2].
-  - exact Hlk.
+  assert (Hp : pair_of_denom s1 d = Some c).
+  { apply pair_of_ctr_some in Hpc. apply (lookup_functional s1 c d); rewrite Hp1; assumption. }
+  destruct (conv_coin_to_erc20_ok e s1 r i d mint c Hp) as [s2 H2]; try assumption.
+  - rewrite Hn1. exact Hcn.
   - right. rewrite Hbal1, !Nat.eqb_refl. unfold dlt. cbn [andb]. specialize (Hnb r d). lia.
   - right. rewrite Hbal1, Nat.eqb_refl. unfold dlt.
     destruct (Nat.eqb_spec (macc e) r); [congruence|].
@@ -740,7 +1058,7 @@ Proof.
   - exists s2. split; [exact H2|].
     apply conv_coin_to_erc20_spec in H2; [|exact Hrm]. destruct H2 as (c2 & Hp2 & H2). cbv zeta in H2.
     assert (c2 = c) by congruence. subst c2.
-    destruct H2 as (_ & _ & _ & Hb2 & Ht2 & Ho2 & Hbal2 & Hsup2 & Hr2 & Hn2 & _).
+    destruct H2 as (_ & _ & _ & _ & _ & _ & _ & Hb2 & Ht2 & _ & Ho2 & Hbal2 & Hsup2 & Hr2 & Hn2 & _).
     split. { intros a d'. rewrite Hbal2, Hbal1. unfold dlt. destruct (Nat.eqb a r && Nat.eqb d' d); lia. }
     split. { intros d'. rewrite Hsup2, Hsup1. unfold dlt. destruct (Nat.eqb d' d); lia. }
     split. { intros c' a. destruct (Nat.eqb_spec c' c) as [->|Hne'].
@@ -753,31 +1071,32 @@ Proof.
 Qed.
 
 (** ** dust *)
-Lemma dust_kept e s i r c x s' :
-  is_bep3 e (pair_denom e c) = true -> i <> macc e ->
+Lemma dust_kept e s i r c d x s' :
+  pair_of_ctr s c = Some d -> is_bep3 e d = true -> i <> macc e ->
   conv_erc20_to_coin e s i r c x = Ok s' tt ->
   let locked := x / K10 * K10 in
   ebal (erc s c) i - ebal (erc s' c) i = locked /\
   ebal (erc s' c) (macc e) - ebal (erc s c) (macc e) = locked /\
   0 <= x - locked < K10 /\
-  bal s' r (pair_denom e c) = bal s r (pair_denom e c) + x / K10.
+  bal s' r d = bal s r d + x / K10.
 Proof.
-  intros Hbep Hi H locked. apply conv_erc20_to_coin_spec in H. cbv zeta in H.
+  intros Hp Hbep Hi H locked. apply conv_erc20_to_coin_spec in H. destruct H as (d' & Hp' & H).
+  assert (d' = d) by congruence. subst d'. cbv zeta in H.
   rewrite Hbep in H. unfold kf in H. rewrite Hbep in H. fold locked in H.
-  destruct H as (_ & _ & _ & _ & _ & _ & Hb & _ & _ & Hbal & _).
+  destruct H as (_ & _ & _ & _ & _ & _ & _ & _ & Hb & _ & _ & _ & Hbal & _).
   split. { rewrite Hb, Nat.eqb_refl. unfold dlt. destruct (Nat.eqb_spec i (macc e)); [congruence|]. lia. }
   split. { rewrite Hb, Nat.eqb_refl. unfold dlt. destruct (Nat.eqb_spec (macc e) i); [congruence|]. lia. }
-  split. { unfold locked. pose proof K10_pos. pose proof (Z.mod_pos_bound x K10 H).
+  split. { unfold locked. pose proof K10_pos as HK. pose proof (Z.mod_pos_bound x K10 HK).
            pose proof (Z.div_mod x K10). lia. }
   rewrite Hbal, !Nat.eqb_refl. reflexivity.
 Qed.
 
 Lemma dust_only_refused e s i r c x :
-  is_bep3 e (pair_denom e c) = true -> 0 <= x < K10 ->
+  (forall d, pair_of_ctr s c = Some d -> is_bep3 e d = true) -> 0 <= x < K10 ->
   conv_erc20_to_coin e s i r c x = Err.
 Proof.
   intros Hbep Hx. unfold conv_erc20_to_coin.
-  destruct (pair_enabled e s c); [|reflexivity]. cbn [negb]. rewrite Hbep.
+  destruct (pair_of_ctr s c) as [d|]; [|reflexivity]. rewrite (Hbep d eq_refl).
   rewrite (Z.div_small x K10 Hx). reflexivity.
 Qed.
 
@@ -788,18 +1107,34 @@ Proof.
   exfalso. exact (H s' u eq_refl).
 Qed.
 
-Lemma disabled_pair_refused_erc20_to_coin e s i r c x :
-  pair_enabled e s c = false -> conv_erc20_to_coin e s i r c x = Err.
-Proof. intros H. unfold conv_erc20_to_coin. rewrite H. reflexivity. Qed.
-
-Lemma disabled_pair_refused_coin_to_erc20 e s i r d x :
-  (forall c, (c < npair e)%nat -> pair_denom e c = d -> enabled s c = false) ->
-  conv_coin_to_erc20 e s i r d x = Err.
+Lemma find_none_fst (l : list (nat * nat)) c :
+  (forall d, ~ In (c, d) l) -> find (fun p : nat * nat => Nat.eqb (fst p) c) l = None.
 Proof.
-  intros H. unfold conv_coin_to_erc20.
-  destruct (pair_of_denom e s d) as [c|] eqn:Ep; [|reflexivity].
-  apply pair_of_denom_some in Ep. destruct Ep as (Hc & Hen & Hd).
-  rewrite (H c Hc Hd) in Hen. discriminate.
+  intros H. destruct (find _ l) as [[c' d']|] eqn:Ef; [|reflexivity].
+  apply find_some in Ef. destruct Ef as [Hin Hb]. cbn in Hb. apply Nat.eqb_eq in Hb. subst.
+  exfalso. exact (H d' Hin).
+Qed.
+
+Lemma find_none_snd (l : list (nat * nat)) d :
+  (forall c, ~ In (c, d) l) -> find (fun p : nat * nat => Nat.eqb (snd p) d) l = None.
+Proof.
+  intros H. destruct (find _ l) as [[c' d']|] eqn:Ef; [|reflexivity].
+  apply find_some in Ef. destruct Ef as [Hin Hb]. cbn in Hb. apply Nat.eqb_eq in Hb. subst.
+  exfalso. exact (H c' Hin).
+Qed.
+
+(* a contract that is not the address of an enabled pair *)
+Lemma disabled_pair_refused_erc20_to_coin e s i r c x :
+  (forall d, ~ In (c, d) (pairs s)) -> conv_erc20_to_coin e s i r c x = Err.
+Proof.
+  intros H. unfold conv_erc20_to_coin, pair_of_ctr. rewrite (find_none_fst _ c H). reflexivity.
+Qed.
+
+(* a denom that is not the denom of an enabled pair *)
+Lemma disabled_pair_refused_coin_to_erc20 e s i r d x :
+  (forall c, ~ In (c, d) (pairs s)) -> conv_coin_to_erc20 e s i r d x = Err.
+Proof.
+  intros H. unfold conv_coin_to_erc20, pair_of_denom. rewrite (find_none_snd _ d H). reflexivity.
 Qed.
 
 Lemma not_allowed_refused e s i r d x :
@@ -815,22 +1150,23 @@ Lemma overdraw_refused_coin_to_erc20 e s i r d x s' :
   i <> macc e -> bal s i d < x -> 0 < x -> conv_coin_to_erc20 e s i r d x <> Ok s' tt.
 Proof.
   intros Hi Hlt Hx H. apply conv_coin_to_erc20_spec in H; [|exact Hi].
-  destruct H as (c & _ & H). cbv zeta in H. destruct H as (Hf & _). lia.
+  destruct H as (c & _ & H). cbv zeta in H. destruct H as (_ & _ & _ & _ & Hf & _). lia.
 Qed.
 
-Lemma overdraw_refused_erc20_to_coin e s i r c x s' :
-  let d := pair_denom e c in
+Lemma overdraw_refused_erc20_to_coin e s i r c d x s' :
+  pair_of_ctr s c = Some d ->
   let lock := (if is_bep3 e d then x / K10 else x) * kf e d in
   ebal (erc s c) i < lock -> conv_erc20_to_coin e s i r c x <> Ok s' tt.
 Proof.
-  intros d lock Hlt H. apply conv_erc20_to_coin_spec in H. cbv zeta in H.
-  fold d in H. fold lock in H. destruct H as (_ & _ & _ & _ & _ & Hle & _). lia.
+  intros Hp lock Hlt H. apply conv_erc20_to_coin_spec in H. destruct H as (d' & Hp' & H).
+  assert (d' = d) by congruence. subst d'. cbv zeta in H.
+  fold lock in H. destruct H as (_ & _ & _ & _ & _ & _ & _ & Hle & _). lia.
 Qed.
 
 Lemma overdraw_refused_cosmos_to_erc20 e s i r d x s' :
   0 < x < U256 -> bal s i d < x -> conv_cosmos_to_erc20 e s i r d x <> Ok s' tt.
 Proof.
-  intros Hx Hlt H. apply conv_cosmos_to_erc20_spec in H; [|lia]. destruct H as (_ & Hf & _). lia.
+  intros Hx Hlt H. apply conv_cosmos_to_erc20_spec in H; [|lia]. destruct H as (_ & _ & Hf & _). lia.
 Qed.
 
 Lemma overdraw_refused_cosmos_from_erc20 e s i r d x c :
@@ -847,12 +1183,12 @@ Lemma blocked_recipient_refused e s i r x :
   (forall d s', conv_cosmos_from_erc20 e s i r d x <> Ok s' tt).
 Proof.
   intros Hb. split.
-  - intros c s' H. apply conv_erc20_to_coin_spec in H. cbv zeta in H.
-    destruct H as (_ & _ & Hb' & _). congruence.
+  - intros c s' H. apply conv_erc20_to_coin_spec in H. destruct H as (d & _ & H). cbv zeta in H.
+    destruct H as (_ & _ & _ & _ & Hb' & _). congruence.
   - intros d s' H. unfold conv_cosmos_from_erc20 in H.
     destruct (reg s d) as [c|]; [|discriminate].
     destruct (ebal (erc s c) i <? x); [discriminate|].
-    destruct (erc_burn (erc s c) i x) as [l1|]; [|discriminate].
+    destruct (erc_burn (zacc e) (erc s c) i x) as [l1|]; [|discriminate].
     unfold send_mod_to_acc in H. rewrite Hb in H. discriminate.
 Qed.
 
@@ -862,17 +1198,290 @@ Lemma unlock_to_module_refused e s i d x s' :
   i <> macc e -> 0 < x -> conv_coin_to_erc20 e s i (macc e) d x <> Ok s' tt.
 Proof.
   intros Hi Hx H. unfold conv_coin_to_erc20 in H.
-  destruct (pair_of_denom e s d) as [c|]; [|discriminate].
+  destruct (pair_of_denom s d) as [c|]; [|discriminate].
   destruct (bank_send s i (macc e) d x) as [s1|]; [|discriminate].
   destruct (bank_burn e s1 d x) as [s2|]; [|discriminate].
   set (unlock := if is_bep3 e d then x * K10 else x) in H.
   assert (Hun : 0 < unlock) by (unfold unlock; pose proof K10_pos; destruct (is_bep3 e d); nia).
-  destruct (erc_transfer (erc s2 c) (macc e) (macc e) unlock) as [l1|] eqn:Et; [|discriminate].
+  destruct (Nat.leb (next s2) c); [discriminate|].
+  destruct (tok_transfer e c (erc s2 c) (macc e) (macc e) unlock) as [l1|] eqn:Et; [|discriminate].
+  destruct (emits_approval e c) eqn:Hap.
+  { destruct (negb _); discriminate. }
+  apply emits_approval_false in Hap. unfold tok_transfer in Et. rewrite Hap in Et.
   apply erc_transfer_spec in Et. destruct Et as (_ & _ & Hb).
   rewrite Hb, Nat.eqb_refl in H. unfold dlt in H.
   destruct (Z.eqb_spec (ebal (erc s2 c) (macc e) + unlock)
                        (ebal (erc s2 c) (macc e) - u256 unlock + u256 unlock)); [lia|discriminate].
 Qed.
+
+(* the zero address: minting a wrapper to it reverts — a first conversion that
+   would deploy the wrapper is refused as a whole (nothing deployed, nothing locked) *)
+Lemma zero_receiver_refused_cosmos_to_erc20 e s i d x :
+  conv_cosmos_to_erc20 e s i (zacc e) d x = Err.
+Proof.
+  unfold conv_cosmos_to_erc20. destruct (negb (allowed s d)); [reflexivity|].
+  destruct (bank_send s i (macc e) d x) as [s1|]; [|reflexivity].
+  unfold erc_mint. rewrite Nat.eqb_refl. reflexivity.
+Qed.
+
+Lemma zero_receiver_refused_coin_to_erc20 e s i d x s' :
+  conv_coin_to_erc20 e s i (zacc e) d x <> Ok s' tt.
+Proof.
+  intros H. unfold conv_coin_to_erc20 in H.
+  destruct (pair_of_denom s d) as [c|]; [|discriminate].
+  destruct (bank_send s i (macc e) d x) as [s1|]; [|discriminate].
+  destruct (bank_burn e s1 d x) as [s2|]; [|discriminate].
+  destruct (Nat.leb (next s2) c); [discriminate|].
+  destruct (tok_transfer e c _ _ _ _) as [l1|] eqn:Et; [|discriminate].
+  destruct (negb _); [discriminate|].
+  destruct (emits_approval e c) eqn:Hap; [discriminate|].
+  apply emits_approval_false in Hap. unfold tok_transfer in Et. rewrite Hap in Et.
+  apply erc_transfer_nz in Et. destruct Et as [_ Hz]. congruence.
+Qed.
+
+(* after a successful ConvertCosmosCoinToERC20 the denom's registered contract
+   is a deployed wrapper and the receiver's balance in it rose by the amount *)
+Lemma cosmos_to_erc20_contract_exists e s i r d x s' :
+  Inv e s -> 0 <= x < U256 -> conv_cosmos_to_erc20 e s i r d x = Ok s' tt ->
+  exists c, reg s' d = Some c /\ (npair e <= c < next s')%nat /\
+            ebal (erc s' c) r = ebal (wl s d) r + x /\ etot (erc s' c) = etot (wl s d) + x.
+Proof.
+  intros (I1 & I2 & _) Hx H. apply conv_cosmos_to_erc20_spec in H; [|exact Hx].
+  destruct H as (_ & _ & _ & c & Hrc & Hcase & _ & Hb & Ht & _).
+  exists c. split; [exact Hrc|]. split.
+  - destruct Hcase as [(Er & _ & Hn)|(_ & -> & _ & Hn)]; rewrite Hn; [apply (I2 d c Er)|lia].
+  - split; [|exact Ht]. rewrite Hb, Nat.eqb_refl. reflexivity.
+Qed.
+
+(** ** a pair whose token announces an allowance change inside transfer():
+       every conversion through it is refused (and so changes nothing) *)
+Lemma approval_pair_refused_erc20_to_coin e s i r c x :
+  kind e c = Refund -> conv_erc20_to_coin e s i r c x = Err.
+Proof.
+  intros Hk. unfold conv_erc20_to_coin, emits_approval. rewrite Hk.
+  destruct (pair_of_ctr s c) as [d|]; [|reflexivity].
+  destruct (is_bep3 e d && _); [reflexivity|].
+  destruct (Nat.leb (next s) c); [reflexivity|].
+  destruct (tok_transfer e c _ _ _ _); [|reflexivity].
+  destruct (negb _); reflexivity.
+Qed.
+
+Lemma approval_pair_refused_coin_to_erc20 e s i r d x c :
+  pair_of_denom s d = Some c -> kind e c = Refund -> conv_coin_to_erc20 e s i r d x = Err.
+Proof.
+  intros Hp Hk. unfold conv_coin_to_erc20, emits_approval. rewrite Hp, Hk.
+  destruct (bank_send s i (macc e) d x) as [s1|]; [|reflexivity].
+  destruct (bank_burn e s1 d x) as [s2|]; [|reflexivity].
+  destruct (Nat.leb (next s2) c); [reflexivity|].
+  destruct (tok_transfer e c _ _ _ _); [|reflexivity].
+  destruct (negb _); reflexivity.
+Qed.
+
+(* in steps: the state is the one before *)
+Lemma approval_pair_changes_nothing e s dr i r c d x :
+  kind e c = Refund ->
+  step' e s (ConvERC20ToCoin dr i r c x) = s /\
+  (pair_of_denom s d = Some c -> step' e s (ConvCoinToERC20 dr i r d x) = s).
+Proof.
+  intros Hk. split.
+  - apply step'_failed. intros s' u. cbn [step]. destruct (amount_ok dr x); [|discriminate].
+    rewrite (approval_pair_refused_erc20_to_coin e s i r c x Hk). discriminate.
+  - intros Hp. apply step'_failed. intros s' u. cbn [step]. destruct (amount_ok dr x); [|discriminate].
+    rewrite (approval_pair_refused_coin_to_erc20 e s i r d x c Hp Hk). discriminate.
+Qed.
+
+(* nobody but the module's own address ever holds an allowance over the tokens locked
+   for an OpenZeppelin pair, so a transferFrom out of the module's address moves nothing *)
+Lemma transfer_from_module_moves_nothing e s c sp t x s' :
+  Inv e s -> (c < npair e)%nat -> kind e c = Oz ->
+  step e s (ErcTransferFrom c sp (macc e) t x) = Ok s' tt ->
+  forall a, ebal (erc s' c) a = ebal (erc s c) a.
+Proof.
+  intros (I1 & _ & _ & _ & _ & I6 & _) Hc Hk H a. cbn [step] in H.
+  destruct (Nat.leb_spec (next s) c); [lia|]. rewrite Hk in H.
+  destruct (erc_transfer_from (zacc e) (erc s c) sp (macc e) t x) as [l|] eqn:Et; [|discriminate].
+  inversion H; subst s'; clear H. cbn [set_erc erc]. unfold upd. rewrite Nat.eqb_refl.
+  apply erc_transfer_from_spec in Et. destruct Et as (Hcov & _ & _ & Hb & _).
+  rewrite (I6 c Hc Hk sp) in Hcov. pose proof (u256_range x).
+  destruct Hcov as [Hcov|Hcov]; [discriminate Hcov|].
+  rewrite Hb. replace (u256 x) with 0 by lia. unfold dlt. destruct (Nat.eqb a (macc e)), (Nat.eqb a t); lia.
+Qed.
+
+(** ** the validators of the parameter-change path *)
+
+Lemma valid_pairs_spec ps l : valid_pairs ps = Some l <-> decode_pairs ps = Some l /\ pairs_nodup l.
+Proof.
+  unfold valid_pairs. destruct (decode_pairs ps) as [l0|].
+  - destruct (pairs_nodupb l0) eqn:E.
+    + apply pairs_nodupb_spec in E. split.
+      * intros H; inversion H; subst. split; [reflexivity|exact E].
+      * intros [H _]. exact H.
+    + split; [discriminate|]. intros [H Hn]. inversion H; subst.
+      apply pairs_nodupb_spec in Hn. congruence.
+  - split; [discriminate|]. intros [H _]. discriminate.
+Qed.
+
+Lemma decode_pairs_in ps : forall l, decode_pairs ps = Some l ->
+  forall p, In p ps -> exists q, decode_pair p = Some q /\ In q l.
+Proof.
+  induction ps as [|p0 r IH]; intros l H p Hin; [contradiction|].
+  cbn [decode_pairs] in H. destruct (decode_pair p0) as [q0|] eqn:E0; [|discriminate].
+  destruct (decode_pairs r) as [l0|] eqn:Er; [|discriminate]. inversion H; subst; clear H.
+  destruct Hin as [->|Hin].
+  - exists q0. split; [exact E0|left; reflexivity].
+  - destruct (IH l0 eq_refl p Hin) as (q & Hq & Hql). exists q. split; [exact Hq|right; exact Hql].
+Qed.
+
+(* a list with a zero address, an address of the wrong length or an invalid denom is refused *)
+Lemma malformed_pair_refused ps p :
+  In p ps -> (p_addr p = AZero \/ p_addr p = ABadLen \/ p_denom p = None) -> valid_pairs ps = None.
+Proof.
+  intros Hin Hbad. destruct (valid_pairs ps) as [l|] eqn:E; [|reflexivity].
+  apply valid_pairs_spec in E. destruct E as [Hd _].
+  destruct (decode_pairs_in ps l Hd p Hin) as (q & Hq & _). unfold decode_pair in Hq.
+  destruct Hbad as [H|[H|H]]; rewrite H in Hq; try discriminate.
+  destruct (p_addr p); discriminate.
+Qed.
+
+Lemma decode_pairs_map ps : forall l, decode_pairs ps = Some l ->
+  map Some l = map decode_pair ps.
+Proof.
+  induction ps as [|p0 r IH]; intros l H; cbn [decode_pairs] in H.
+  - inversion H; reflexivity.
+  - destruct (decode_pair p0) as [q0|] eqn:E0; [|discriminate].
+    destruct (decode_pairs r) as [l0|] eqn:Er; [|discriminate]. inversion H; subst; clear H.
+    cbn [map]. rewrite E0, (IH l0 eq_refl). reflexivity.
+Qed.
+
+(* two entries with one address, or two entries with one denom, are refused *)
+Lemma duplicate_pair_refused ps1 p ps2 p' ps3 :
+  (p_addr p = p_addr p' \/ p_denom p = p_denom p') ->
+  valid_pairs (ps1 ++ p :: ps2 ++ p' :: ps3) = None.
+Proof.
+  intros Hdup. destruct (valid_pairs _) as [l|] eqn:E; [|reflexivity]. exfalso.
+  apply valid_pairs_spec in E. destruct E as [Hd [Hn1 Hn2]].
+  pose proof (decode_pairs_map _ _ Hd) as Hm.
+  destruct (decode_pairs_in _ l Hd p) as (q & Hq & _); [apply in_or_app; right; left; reflexivity|].
+  destruct (decode_pairs_in _ l Hd p') as (q' & Hq' & _).
+  { apply in_or_app; right; right. apply in_or_app; right; left; reflexivity. }
+  rewrite !map_app in Hm. cbn [map] in Hm. rewrite !map_app in Hm. cbn [map] in Hm. rewrite Hq, Hq' in Hm.
+  (* l splits the same way *)
+  assert (Hsplit : exists l1 l2 l3, l = l1 ++ q :: l2 ++ q' :: l3).
+  { clear -Hm. revert l Hm. generalize (map decode_pair ps1) as m1. intros m1. revert m1.
+    assert (Hgen : forall (m1 m2 : list (option (nat*nat))) a l, map Some l = m1 ++ Some a :: m2 ->
+              exists l1 l2, l = l1 ++ a :: l2 /\ map Some l1 = m1 /\ map Some l2 = m2).
+    { induction m1 as [|x m1 IH]; intros m2 a l H; destruct l as [|y l]; cbn in H; try discriminate.
+      - inversion H; subst. exists [], l. repeat split.
+      - inversion H; subst. destruct (IH m2 a l H2) as (l1 & l2 & -> & H3 & H4).
+        exists (y :: l1), l2. cbn. rewrite H3. repeat split; assumption. }
+    intros m1 l Hm. destruct (Hgen _ _ _ _ Hm) as (l1 & l2 & -> & _ & H2).
+    destruct (Hgen _ _ _ _ H2) as (l3 & l4 & -> & _ & _). exists l1, l3, l4. reflexivity. }
+  destruct Hsplit as (l1 & l2 & l3 & ->).
+  unfold decode_pair in Hq, Hq'.
+  destruct (p_addr p) as [c| |] eqn:Ea, (p_denom p) as [d|] eqn:Ed; try discriminate.
+  destruct (p_addr p') as [c'| |] eqn:Ea', (p_denom p') as [d'|] eqn:Ed'; try discriminate.
+  inversion Hq; inversion Hq'; subst q q'; clear Hq Hq'.
+  destruct Hdup as [H|H]; inversion H; subst.
+  - rewrite !map_app in Hn1. cbn [map fst] in Hn1. rewrite !map_app in Hn1. cbn [map fst] in Hn1.
+    apply NoDup_remove_2 in Hn1. apply Hn1. apply in_or_app. right. apply in_or_app. right. left. reflexivity.
+  - rewrite !map_app in Hn2. cbn [map snd] in Hn2. rewrite !map_app in Hn2. cbn [map snd] in Hn2.
+    apply NoDup_remove_2 in Hn2. apply Hn2. apply in_or_app. right. apply in_or_app. right. left. reflexivity.
+Qed.
+
+(* what a successful parameter change installs *)
+Lemma set_params_spec e s ps ts s' : step e s (SetParams ps ts) = Ok s' tt ->
+  valid_pairs ps = Some (pairs s') /\ pairs_nodup (pairs s') /\
+  (exists al, valid_toks ts = Some al /\ allowed s' = memb al) /\
+  bal s' = bal s /\ sup s' = sup s /\ erc s' = erc s /\ reg s' = reg s /\ next s' = next s.
+Proof.
+  cbn [step]. destruct (valid_pairs ps) as [l|] eqn:Ev; [|discriminate].
+  destruct (valid_toks ts) as [al|] eqn:Et; [|discriminate].
+  intros H; inversion H; subst; clear H. cbn [pairs allowed bal sup erc reg next].
+  split; [reflexivity|]. split; [apply (valid_pairs_spec ps l); exact Ev|].
+  split; [exists al; split; reflexivity|]. repeat split.
+Qed.
+
+Lemma set_params_refused e s ps ts :
+  valid_pairs ps = None \/ valid_toks ts = None -> step e s (SetParams ps ts) = Err.
+Proof.
+  intros [H|H]; cbn [step]; rewrite H; [reflexivity|]. destruct (valid_pairs ps); reflexivity.
+Qed.
+
+(* no operation other than a validated parameter change touches the enabled pairs *)
+Lemma bank_send_pairs s f t d x s' : bank_send s f t d x = Some s' -> pairs s' = pairs s.
+Proof. intros H. apply bank_send_spec in H. destruct H as (_ & (_ & _ & _ & Hp & _) & _). exact Hp. Qed.
+
+Lemma bank_burn_pairs e s d x s' : bank_burn e s d x = Some s' -> pairs s' = pairs s.
+Proof. intros H. apply bank_burn_spec in H. destruct H as (_ & (_ & _ & _ & Hp & _) & _). exact Hp. Qed.
+
+Lemma step_pairs e s o s' : step e s o = Ok s' tt ->
+  pairs s' = pairs s \/ exists ps ts, o = SetParams ps ts /\ valid_pairs ps = Some (pairs s').
+Proof.
+  intros H.
+  destruct o as [dr i r d x|dr i r c x|dr i r d x|dr i r d x|c f t x|c t x|f t d x|ps ts|c o sp x|c sp f t x];
+    cbn [step] in H.
+  - left. destruct (amount_ok dr x); [|discriminate]. unfold conv_coin_to_erc20 in H.
+    destruct (pair_of_denom s d); [|discriminate].
+    destruct (bank_send s i (macc e) d x) as [s1|] eqn:E1; [|discriminate].
+    destruct (bank_burn e s1 d x) as [s2|] eqn:E2; [|discriminate].
+    destruct (Nat.leb (next s2) n); [discriminate|].
+    destruct (tok_transfer e n _ _ _ _); [|discriminate].
+    destruct (negb _); [discriminate|]. destruct (emits_approval e n); [discriminate|].
+    inversion H; subst. cbn [set_erc pairs].
+    rewrite (bank_burn_pairs _ _ _ _ _ E2), (bank_send_pairs _ _ _ _ _ _ E1). reflexivity.
+  - left. destruct (amount_ok dr x); [|discriminate]. unfold conv_erc20_to_coin in H.
+    destruct (pair_of_ctr s c) as [d|]; [|discriminate].
+    destruct (is_bep3 e d && _); [discriminate|]. destruct (Nat.leb (next s) c); [discriminate|].
+    destruct (tok_transfer e c _ _ _ _) as [l1|]; [|discriminate].
+    destruct (negb _); [discriminate|]. destruct (emits_approval e c); [discriminate|].
+    destruct (send_mod_to_acc e _ r d _) as [s3|] eqn:Es; [|discriminate]. inversion H; subst.
+    apply send_mod_to_acc_spec in Es. destruct Es as [_ Es]. rewrite (bank_send_pairs _ _ _ _ _ _ Es). reflexivity.
+  - left. destruct (amount_ok dr x); [|discriminate]. unfold conv_cosmos_to_erc20 in H.
+    destruct (negb (allowed s d)); [discriminate|].
+    destruct (bank_send s i (macc e) d x) as [s1|] eqn:E1; [|discriminate].
+    destruct (erc_mint _ _ r x); [|discriminate]. inversion H; subst. cbn [set_erc pairs].
+    rewrite <- (bank_send_pairs _ _ _ _ _ _ E1). destruct (reg s1 d); reflexivity.
+  - left. destruct (amount_ok dr x); [|discriminate]. unfold conv_cosmos_from_erc20 in H.
+    destruct (reg s d) as [c|]; [|discriminate]. destruct (_ <? x); [discriminate|].
+    destruct (erc_burn _ _ i x) as [l1|]; [|discriminate].
+    destruct (send_mod_to_acc e _ r d x) as [s2|] eqn:Es; [|discriminate]. inversion H; subst.
+    apply send_mod_to_acc_spec in Es. destruct Es as [_ Es]. rewrite (bank_send_pairs _ _ _ _ _ _ Es). reflexivity.
+  - left. destruct (Nat.leb (next s) c); [inversion H; reflexivity|].
+    destruct (tok_transfer e c _ f t x); [|discriminate]. inversion H; reflexivity.
+  - left. destruct (Nat.leb (next s) c); [inversion H; reflexivity|].
+    destruct (negb _); [discriminate|]. destruct (kind e c).
+    + destruct (erc_mint _ _ t x); [|discriminate]. inversion H; reflexivity.
+    + inversion H; reflexivity.
+  - left. destruct (x <=? 0); [discriminate|]. destruct (blocked e t); [discriminate|].
+    destruct (bank_send s f t d x) as [s1|] eqn:E1; [|discriminate]. inversion H; subst.
+    apply (bank_send_pairs _ _ _ _ _ _ E1).
+  - right. exists ps, ts. split; [reflexivity|]. apply (set_params_spec e s) in H. exact (proj1 H).
+  - left. destruct (Nat.leb (next s) c); [inversion H; reflexivity|].
+    destruct (kind e c); [|discriminate].
+    destruct (erc_approve _ _ o sp x); [|discriminate]. inversion H; reflexivity.
+  - left. destruct (Nat.leb (next s) c); [inversion H; reflexivity|].
+    destruct (match kind e c with Oz => _ | Refund => _ end); [|discriminate]. inversion H; reflexivity.
+Qed.
+
+(* hence the enabled pairs are duplicate-free after every history, whoever signs what *)
+Lemma step'_pairs_nodup e s o : pairs_nodup (pairs s) -> pairs_nodup (pairs (step' e s o)).
+Proof.
+  intros Hn. unfold step'. destruct (step e s o) as [s' []| |] eqn:E; try exact Hn.
+  destruct (step_pairs e s o s' E) as [->|(ps & ts & _ & Hv)]; [exact Hn|].
+  apply valid_pairs_spec in Hv. apply Hv.
+Qed.
+
+Lemma run_pairs_nodup e ops : forall s, pairs_nodup (pairs s) -> pairs_nodup (pairs (run e s ops)).
+Proof.
+  induction ops as [|o r IH]; intros s Hn; cbn [run fold_left]; [exact Hn|].
+  apply IH. apply step'_pairs_nodup. exact Hn.
+Qed.
+
+(* ... and the lookups the keeper makes are functions of the denom / the address *)
+Lemma run_lookup_functional e ops s c d :
+  pairs_nodup (pairs s) -> In (c, d) (pairs (run e s ops)) ->
+  pair_of_denom (run e s ops) d = Some c /\ pair_of_ctr (run e s ops) c = Some d.
+Proof. intros Hn Hin. apply lookup_functional; [apply run_pairs_nodup; exact Hn|exact Hin]. Qed.
 
 (* the model never panics *)
 Lemma step_no_panic e s o : step e s o <> Panic.
@@ -885,21 +1494,27 @@ Proof.
     end; discriminate.
 Qed.
 
+Lemma tx_step_no_panic e tx : forall s, tx_step e s tx <> Panic.
+Proof.
+  induction tx as [|o r IH]; intros s; cbn [tx_step]; [discriminate|].
+  destruct (step e s o) as [s1 u| |] eqn:E; [apply IH|discriminate|]. exfalso. exact (step_no_panic e s o E).
+Qed.
+
 (** ** the other direction of the round trips *)
 
 Lemma conv_cosmos_to_erc20_ok e s i r d x :
-  allowed s d = true -> 0 <= x < U256 -> (x = 0 \/ x <= bal s i d) ->
+  allowed s d = true -> r <> zacc e -> 0 <= x < U256 -> (x = 0 \/ x <= bal s i d) ->
   etot (wl s d) + x < U256 ->
   exists s', conv_cosmos_to_erc20 e s i r d x = Ok s' tt.
 Proof.
-  intros Hal Hx Hf Ht. unfold conv_cosmos_to_erc20. rewrite Hal. cbn [negb].
+  intros Hal Hrz Hx Hf Ht. unfold conv_cosmos_to_erc20. rewrite Hal. cbn [negb].
   destruct (bank_send_ok s i (macc e) d x Hf) as [s1 E1]. rewrite E1.
   apply bank_send_spec in E1. destruct E1 as (_ & (He1 & He2 & He3 & _) & _ & _).
   rewrite He2. unfold wl in Ht. destruct (reg s d) as [c|] eqn:Er.
-  - destruct (erc_mint_ok (erc s1 c) r x) as [l1 El]; [rewrite He1, u256_small by exact Hx; exact Ht|].
+  - destruct (erc_mint_ok (zacc e) (erc s1 c) r x Hrz) as [l1 El]; [rewrite He1, u256_small by exact Hx; exact Ht|].
     rewrite El. eexists; reflexivity.
   - unfold deploy. cbn [erc next]. unfold upd at 1. rewrite Nat.eqb_refl.
-    destruct (erc_mint_ok empty_ledger r x) as [l1 El]; [rewrite u256_small by exact Hx; exact Ht|].
+    destruct (erc_mint_ok (zacc e) empty_ledger r x Hrz) as [l1 El]; [rewrite u256_small by exact Hx; exact Ht|].
     rewrite El. eexists; reflexivity.
 Qed.
 
@@ -915,18 +1530,19 @@ Lemma round_trip_cosmos_back e s i r d x s1 :
 Proof.
   intros Hwf (Hnb & Hne & Hnt) Hx Hal H1.
   apply conv_cosmos_from_erc20_spec in H1; [|exact Hx].
-  destruct H1 as (c & Er & Hblk & _ & _ & Hb1 & Ht1 & Ho1 & Hbal1 & Hsup1 & Hr1 & Hn1 & (_ & Hal1)).
+  destruct H1 as (c & Er & Hiz & Hblk & _ & _ & Hb1 & Ht1 & Ho1 & Hbal1 & Hsup1 & Hr1 & Hn1 & (_ & Hal1)).
   pose proof (blocked_not_module e r Hwf Hblk) as Hrm.
   assert (Hwl1 : wl s1 d = erc s1 c) by (unfold wl; rewrite Hr1, Er; reflexivity).
   destruct (conv_cosmos_to_erc20_ok e s1 r i d x) as [s2 H2].
   - rewrite Hal1. exact Hal.
+  - exact Hiz.
   - exact Hx.
   - right. rewrite Hbal1, !Nat.eqb_refl. unfold dlt.
     destruct (Nat.eqb_spec r (macc e)); [congruence|]. cbn [andb]. specialize (Hnb r d). lia.
   - rewrite Hwl1, Ht1. specialize (Hnt c). lia.
   - exists s2. split; [exact H2|].
     apply conv_cosmos_to_erc20_spec in H2; [|exact Hx].
-    destruct H2 as (_ & _ & c2 & Hrc2 & Hcase & _ & Hb2 & Ht2 & Ho2 & Hbal2 & Hsup2 & _).
+    destruct H2 as (_ & _ & _ & c2 & Hrc2 & Hcase & _ & Hb2 & Ht2 & Ho2 & Hbal2 & Hsup2 & _).
     destruct Hcase as [(Er2 & Hr2 & Hn2) | (Er2 & _)]; [|congruence].
     assert (c2 = c) by congruence. subst c2. rewrite Hwl1 in Hb2, Ht2.
     split. { intros a d'. rewrite Hbal2, Hbal1. unfold dlt.
@@ -941,24 +1557,25 @@ Proof.
     split; congruence.
 Qed.
 
-Lemma conv_erc20_to_coin_ok e s i r c x :
-  let d := pair_denom e c in
+Lemma conv_erc20_to_coin_ok e s i r c d x :
+  pair_of_ctr s c = Some d ->
   let mint := if is_bep3 e d then x / K10 else x in
   let lock := mint * kf e d in
-  pair_enabled e s c = true -> blocked e r = false -> i <> macc e ->
+  (c < next s)%nat -> kind e c = Oz -> i <> zacc e -> macc e <> zacc e ->
+  blocked e r = false -> i <> macc e ->
   (is_bep3 e d = true -> mint <> 0) -> 0 <= lock < U256 -> lock <= ebal (erc s c) i ->
   0 <= mint -> 0 <= bal s (macc e) d ->
   exists s', conv_erc20_to_coin e s i r c x = Ok s' tt.
 Proof.
-  intros d mint lock Hen Hblk Hi Hnz Hlk Hle Hmint Hm. unfold conv_erc20_to_coin. rewrite Hen. cbn [negb].
-  fold d.
+  intros Hp mint lock Hcn Hk Hiz Hmz Hblk Hi Hnz Hlk Hle Hmint Hm. unfold conv_erc20_to_coin. rewrite Hp.
   assert (Hlock : (if is_bep3 e d then x / K10 * K10 else x) = lock).
   { unfold lock, mint, kf. destruct (is_bep3 e d); lia. }
   rewrite Hlock. fold mint.
   assert (Hz : is_bep3 e d && (mint =? 0) = false).
   { destruct (is_bep3 e d) eqn:Hb; [|reflexivity]. cbn [andb]. apply Z.eqb_neq. apply Hnz. reflexivity. }
-  rewrite Hz.
-  destruct (erc_transfer_ok (erc s c) i (macc e) lock) as [l1 Et]; [rewrite u256_small by exact Hlk; exact Hle|].
+  rewrite Hz. destruct (Nat.leb_spec (next s) c); [lia|].
+  unfold tok_transfer, emits_approval. rewrite Hk.
+  destruct (erc_transfer_ok (zacc e) (erc s c) i (macc e) lock Hiz Hmz) as [l1 Et]; [rewrite u256_small by exact Hlk; exact Hle|].
   rewrite Et. apply erc_transfer_spec in Et. destruct Et as (_ & _ & Hb).
   rewrite Hb, Nat.eqb_refl, u256_small by exact Hlk. unfold dlt.
   destruct (Nat.eqb_spec i (macc e)); [congruence|].
@@ -972,37 +1589,35 @@ Qed.
 
 (* coin -> ERC20 -> coin for an EVM-native pair *)
 Lemma round_trip_evm_back e s i r d x s1 :
-  env_wf e -> nonneg s -> 0 <= x -> (is_bep3 e d = true -> 0 < x) ->
+  env_wf e -> nonneg s -> pairs_nodup (pairs s) -> 0 <= x -> (is_bep3 e d = true -> 0 < x) ->
   i <> macc e -> r <> macc e -> blocked e i = false ->
   conv_coin_to_erc20 e s i r d x = Ok s1 tt ->
-  exists c s2, pair_of_denom e s d = Some c /\
+  exists c s2, pair_of_denom s d = Some c /\
     conv_erc20_to_coin e s1 r i c (x * kf e d) = Ok s2 tt /\
     (forall a d', bal s2 a d' = bal s a d') /\ (forall d', sup s2 d' = sup s d') /\
     (forall c' a, ebal (erc s2 c') a = ebal (erc s c') a) /\
     (forall c', etot (erc s2 c') = etot (erc s c')) /\
     reg s2 = reg s /\ next s2 = next s.
 Proof.
-  intros Hwf (Hnb & Hne & _) Hx Hpos Him Hrm Hblk H1.
+  intros Hwf (Hnb & Hne & _) Hnd Hx Hpos Him Hrm Hblk H1.
   apply conv_coin_to_erc20_spec in H1; [|exact Him]. destruct H1 as (c & Hp & H1). cbv zeta in H1.
-  destruct H1 as (Hf & Hun & Hle & Hb1 & Ht1 & Ho1 & Hbal1 & Hsup1 & Hr1 & Hn1 & (Hp1 & _)).
-  pose proof (pair_of_denom_some e s d c Hp) as (Hc & Hen & Hd).
+  destruct H1 as (Hcn & Hk & Hrz & Hmz & Hf & Hun & Hle & Hb1 & Ht1 & _ & Ho1 & Hbal1 & Hsup1 & Hr1 & Hn1 & (Hp1 & _)).
   exists c.
-  assert (Hmint : (if is_bep3 e (pair_denom e c) then x * kf e d / K10 else x * kf e d) = x).
-  { rewrite Hd. unfold kf. destruct (is_bep3 e d); [apply Z.div_mul; pose proof K10_pos; lia|lia]. }
-  destruct (conv_erc20_to_coin_ok e s1 r i c (x * kf e d)) as [s2 H2]; cbv zeta; rewrite ?Hmint, ?Hd.
-  - unfold pair_enabled. rewrite Hp1, Hen. destruct (Nat.ltb_spec c (npair e)); [reflexivity|lia].
-  - exact Hblk.
-  - exact Hrm.
+  assert (Hpc : pair_of_ctr s1 c = Some d).
+  { apply pair_of_denom_some in Hp. apply (lookup_functional s1 c d); rewrite Hp1; assumption. }
+  assert (Hmint : (if is_bep3 e d then x * kf e d / K10 else x * kf e d) = x).
+  { unfold kf. destruct (is_bep3 e d); [apply Z.div_mul; pose proof K10_pos; lia|lia]. }
+  destruct (conv_erc20_to_coin_ok e s1 r i c d (x * kf e d) Hpc) as [s2 H2]; cbv zeta; rewrite ?Hmint; try assumption.
+  - rewrite Hn1. exact Hcn.
   - intros Hbep. specialize (Hpos Hbep). lia.
-  - exact Hun.
   - rewrite Hb1, Nat.eqb_refl. unfold dlt. destruct (Nat.eqb_spec r (macc e)); [congruence|].
     specialize (Hne c r). lia.
-  - exact Hx.
   - rewrite Hbal1. unfold dlt. destruct (Nat.eqb_spec (macc e) i); [congruence|]. cbn [andb].
     specialize (Hnb (macc e) d). lia.
   - exists s2. split; [exact Hp|]. split; [exact H2|].
-    apply conv_erc20_to_coin_spec in H2. cbv zeta in H2. rewrite Hmint, Hd in H2.
-    destruct H2 as (_ & _ & _ & _ & _ & _ & Hb2 & Ht2 & Ho2 & Hbal2 & Hsup2 & Hr2 & Hn2 & _).
+    apply conv_erc20_to_coin_spec in H2. destruct H2 as (d2 & Hpc2 & H2).
+    assert (d2 = d) by congruence. subst d2. cbv zeta in H2. rewrite Hmint in H2.
+    destruct H2 as (_ & _ & _ & _ & _ & _ & _ & _ & Hb2 & Ht2 & _ & Ho2 & Hbal2 & Hsup2 & Hr2 & Hn2 & _).
     split. { intros a d'. rewrite Hbal2, Hbal1. unfold dlt. destruct (Nat.eqb a i && Nat.eqb d' d); lia. }
     split. { intros d'. rewrite Hsup2, Hsup1. unfold dlt. destruct (Nat.eqb d' d); lia. }
     split. { intros c' a. destruct (Nat.eqb_spec c' c) as [->|Hne'].
@@ -1021,14 +1636,22 @@ Proof.
   cbn. split; [lia|exact U256_pos].
 Qed.
 
+(* replacing one ledger by one with non-negative balances and a total in range *)
+Lemma nonneg_set_erc s c l : nonneg s -> (forall a, 0 <= ebal l a) -> etot l < U256 -> nonneg (set_erc s c l).
+Proof.
+  intros (Hnb & Hne & Hnt) Hb Ht. split; [exact Hnb|]. cbn [set_erc erc]. split.
+  - intros c' a. unfold upd. destruct (Nat.eqb c' c); [apply Hb|apply Hne].
+  - intros c'. unfold upd. destruct (Nat.eqb c' c); [exact Ht|apply Hnt].
+Qed.
+
 Lemma step_nonneg e s o s' : nonneg s -> op_wf e o -> step e s o = Ok s' tt -> nonneg s'.
 Proof.
-  intros Hnn Hs H. pose proof Hnn as (Hnb & Hne & Hnt). unfold op_wf in Hs.
-  destruct o as [dr i r d x|dr i r c x|dr i r d x|dr i r d x|c f t x|c t x|f t d x|en al];
+  intros Hnn (Hs & _ & _) H. pose proof Hnn as (Hnb & Hne & Hnt).
+  destruct o as [dr i r d x|dr i r c x|dr i r d x|dr i r d x|c f t x|c t x|f t d x|ps ts|c o sp x|c sp f t x];
     cbn [step signer] in H, Hs.
   - destruct (amount_ok dr x) eqn:Ea; [|discriminate]. apply amount_ok_range in Ea.
     apply conv_coin_to_erc20_spec in H; [|congruence]. destruct H as (c & _ & H). cbv zeta in H.
-    destruct H as (Hf & Hun & Hle & Hb & Ht & Ho & Hbal & _).
+    destruct H as (_ & _ & _ & _ & Hf & Hun & Hle & Hb & Ht & _ & Ho & Hbal & _).
     split; [|split].
     + intros a d'. rewrite Hbal. unfold dlt. specialize (Hnb a d').
       destruct (Nat.eqb_spec a i) as [->|]; cbn [andb]; [|lia].
@@ -1041,9 +1664,8 @@ Proof.
       * rewrite Ht. apply Hnt.
       * rewrite Ho by exact Hne'. apply Hnt.
   - destruct (amount_ok dr x) eqn:Ea; [|discriminate]. apply amount_ok_range in Ea.
-    apply conv_erc20_to_coin_spec in H. cbv zeta in H.
-    destruct H as (_ & _ & _ & _ & Hlk & Hle & Hb & Ht & Ho & Hbal & _).
-    set (d := pair_denom e c) in *.
+    apply conv_erc20_to_coin_spec in H. destruct H as (d & _ & H). cbv zeta in H.
+    destruct H as (_ & _ & _ & _ & _ & _ & Hlk & Hle & Hb & Ht & _ & Ho & Hbal & _).
     assert (Hmint : 0 <= (if is_bep3 e d then x / K10 else x)).
     { destruct (is_bep3 e d); [apply Z.div_pos; [lia|exact K10_pos]|lia]. }
     split; [|split].
@@ -1058,7 +1680,7 @@ Proof.
       * rewrite Ho by exact Hne'. apply Hnt.
   - destruct (amount_ok dr x) eqn:Ea; [|discriminate]. apply amount_ok_range in Ea.
     apply conv_cosmos_to_erc20_spec in H; [|exact Ea].
-    destruct H as (_ & Hf & c & _ & _ & Hlt & Hb & Ht & Ho & Hbal & _).
+    destruct H as (_ & _ & Hf & c & _ & _ & Hlt & Hb & Ht & Ho & Hbal & _).
     destruct (wl_nonneg s d Hnn) as [Hw _].
     split; [|split].
     + intros a d'. rewrite Hbal. unfold dlt. specialize (Hnb a d').
@@ -1073,7 +1695,7 @@ Proof.
       * rewrite Ho by exact Hne'. apply Hnt.
   - destruct (amount_ok dr x) eqn:Ea; [|discriminate]. apply amount_ok_range in Ea.
     apply conv_cosmos_from_erc20_spec in H; [|exact Ea].
-    destruct H as (c & _ & _ & Hle & Hf & Hb & Ht & Ho & Hbal & _).
+    destruct H as (c & _ & _ & _ & Hle & Hf & Hb & Ht & Ho & Hbal & _).
     split; [|split].
     + intros a d'. rewrite Hbal. unfold dlt. specialize (Hnb a d').
       destruct (Nat.eqb_spec a (macc e)) as [->|]; cbn [andb].
@@ -1086,23 +1708,28 @@ Proof.
       * rewrite Ht. specialize (Hnt c). lia.
       * rewrite Ho by exact Hne'. apply Hnt.
   - destruct (Nat.leb (next s) c); [inversion H; subst; exact Hnn|].
-    destruct (erc_transfer (erc s c) f t x) as [l|] eqn:Et; [|discriminate].
-    inversion H; subst s'; clear H. apply erc_transfer_spec in Et. destruct Et as (Hle & Htot & Hb).
-    pose proof (u256_range x).
-    split; [exact Hnb|]. cbn [set_erc erc]. split.
-    + intros c' a. unfold upd. destruct (Nat.eqb_spec c' c) as [->|]; [|apply Hne].
-      rewrite Hb. unfold dlt. specialize (Hne c a).
+    destruct (tok_transfer e c (erc s c) f t x) as [l|] eqn:Et; [|discriminate].
+    inversion H; subst s'; clear H. unfold tok_transfer in Et. pose proof (u256_range x).
+    destruct (kind e c).
+    + apply erc_transfer_spec in Et. destruct Et as (Hle & Htot & Hb).
+      apply nonneg_set_erc; [exact Hnn| |rewrite Htot; apply Hnt].
+      intros a. rewrite Hb. unfold dlt. specialize (Hne c a).
       destruct (Nat.eqb a t), (Nat.eqb_spec a f) as [->|]; lia.
-    + intros c'. unfold upd. destruct (Nat.eqb_spec c' c) as [->|]; [|apply Hnt]. rewrite Htot. apply Hnt.
+    + apply rf_transfer_spec in Et. destruct Et as (Hle & Htot & _ & Hb & Hbt).
+      apply nonneg_set_erc; [exact Hnn| |rewrite Htot; apply Hnt].
+      intros a. destruct (Nat.eqb_spec a t) as [->|Hat].
+      * rewrite Hbt. apply u256_range.
+      * rewrite (Hb a Hat). unfold dlt. specialize (Hne c a). destruct (Nat.eqb_spec a f) as [->|]; lia.
   - destruct (Nat.leb (next s) c); [inversion H; subst; exact Hnn|].
-    destruct (Nat.ltb c (npair e)); [|discriminate]. cbn [negb] in H.
-    destruct (erc_mint (erc s c) t x) as [l|] eqn:Em; [|discriminate].
-    inversion H; subst s'; clear H. apply erc_mint_spec in Em. destruct Em as (Hlt & Htot & Hb).
-    pose proof (u256_range x).
-    split; [exact Hnb|]. cbn [set_erc erc]. split.
-    + intros c' a. unfold upd. destruct (Nat.eqb_spec c' c) as [->|]; [|apply Hne].
-      rewrite Hb. unfold dlt. specialize (Hne c a). destruct (Nat.eqb a t); lia.
-    + intros c'. unfold upd. destruct (Nat.eqb_spec c' c) as [->|]; [|apply Hnt]. rewrite Htot. exact Hlt.
+    destruct (Nat.ltb c (npair e)); [|discriminate]. cbn [negb] in H. pose proof (u256_range x).
+    destruct (kind e c).
+    + destruct (erc_mint (zacc e) (erc s c) t x) as [l|] eqn:Em; [|discriminate].
+      inversion H; subst s'; clear H. apply erc_mint_spec in Em. destruct Em as (Hlt & Htot & Hb).
+      apply nonneg_set_erc; [exact Hnn| |rewrite Htot; exact Hlt].
+      intros a. rewrite Hb. unfold dlt. specialize (Hne c a). destruct (Nat.eqb a t); lia.
+    + inversion H; subst s'; clear H.
+      apply nonneg_set_erc; [exact Hnn| |cbn [rf_mint etot]; apply Hnt].
+      intros a. cbn [rf_mint ebal]. unfold upd. destruct (Nat.eqb a t); [apply u256_range|apply Hne].
   - destruct (Z.leb_spec x 0); [discriminate|].
     destruct (blocked e t); [discriminate|].
     destruct (bank_send s f t d x) as [s1|] eqn:Es; [|discriminate].
@@ -1113,7 +1740,29 @@ Proof.
     destruct (Nat.eqb_spec a f) as [->|]; cbn [andb].
     + destruct (Nat.eqb_spec d' d) as [->|]; destruct (Nat.eqb f t); cbn [andb]; lia.
     + destruct (Nat.eqb a t && Nat.eqb d' d); lia.
-  - inversion H; subst s'; clear H. exact Hnn.
+  - destruct (valid_pairs ps); [|discriminate]. destruct (valid_toks ts); [|discriminate].
+    inversion H; subst s'; clear H. exact Hnn.
+  - destruct (Nat.leb (next s) c); [inversion H; subst; exact Hnn|].
+    destruct (kind e c); [|discriminate].
+    destruct (erc_approve (zacc e) (erc s c) o sp x) as [l|] eqn:Ea; [|discriminate].
+    inversion H; subst s'; clear H. apply erc_approve_spec in Ea. destruct Ea as (_ & _ & Eb & Et & _).
+    apply nonneg_set_erc; [exact Hnn|rewrite Eb; apply Hne|rewrite Et; apply Hnt].
+  - destruct (Nat.leb (next s) c); [inversion H; subst; exact Hnn|]. pose proof (u256_range x).
+    destruct (kind e c).
+    + destruct (erc_transfer_from (zacc e) (erc s c) sp f t x) as [l|] eqn:Et; [|discriminate].
+      inversion H; subst s'; clear H.
+      apply erc_transfer_from_spec in Et. destruct Et as (_ & Hle & Htot & Hb & _).
+      apply nonneg_set_erc; [exact Hnn| |rewrite Htot; apply Hnt].
+      intros a. rewrite Hb. unfold dlt. specialize (Hne c a).
+      destruct (Nat.eqb a t), (Nat.eqb_spec a f) as [->|]; lia.
+    + destruct (rf_transfer_from (erc s c) sp f t x) as [l|] eqn:Et; [|discriminate].
+      inversion H; subst s'; clear H. unfold rf_transfer_from in Et.
+      destruct (eallow (erc s c) f sp <? u256 x); [discriminate|].
+      destruct (Z.ltb_spec (ebal (erc s c) f) (u256 x)); [discriminate|].
+      inversion Et; subst l; clear Et.
+      apply nonneg_set_erc; [exact Hnn| |cbn [etot]; apply Hnt].
+      intros a. cbn [ebal]. unfold upd. destruct (Nat.eqb a t); [apply u256_range|].
+      specialize (Hne c a). destruct (Nat.eqb_spec a f) as [->|]; lia.
 Qed.
 
 Lemma run_nonneg e ops : forall s, nonneg s -> Forall (op_wf e) ops -> nonneg (run e s ops).
@@ -1122,4 +1771,32 @@ Proof.
   inversion Hall; subst. apply IH; [|assumption].
   unfold step'. destruct (step e s o) as [s' []| |] eqn:E; try exact Hnn.
   apply (step_nonneg e s o s' Hnn H1 E).
+Qed.
+
+(* for every enabled pair the coin supply, scaled, is covered by the tokens the
+   module's EVM address holds (for a pair whose token emits Approval no coin exists) *)
+Lemma evm_native_backed e ops s c d :
+  env_wf e -> Inv e s -> nonneg s -> Forall (op_wf e) ops ->
+  In (c, d) (pairs (run e s ops)) ->
+  sup (run e s ops) d * (if is_bep3 e d then 10 ^ 10 else 1)
+    <= ebal (erc (run e s ops) c) (macc e).
+Proof.
+  intros Hwf HI Hnn Hall Hin. pose proof (run_inv e ops s Hwf HI Hall) as HI'.
+  destruct (on_table_in e _ c d HI' Hin) as [Hc ->].
+  destruct HI' as (_ & _ & _ & _ & I5 & _ & I7 & _).
+  destruct (kind e c) eqn:Hk.
+  - exact (I5 c Hc Hk).
+  - rewrite (I7 c Hc Hk). destruct (run_nonneg e ops s Hnn Hall) as (_ & Hne & _).
+    specialize (Hne c (macc e)). lia.
+Qed.
+
+(* nobody holds an allowance over the tokens locked for an (OpenZeppelin) pair *)
+Lemma no_allowance_over_locked_tokens e ops s c d a :
+  env_wf e -> Inv e s -> Forall (op_wf e) ops ->
+  In (c, d) (pairs (run e s ops)) -> kind e c = Oz ->
+  eallow (erc (run e s ops) c) (macc e) a = 0.
+Proof.
+  intros Hwf HI Hall Hin Hk. pose proof (run_inv e ops s Hwf HI Hall) as HI'.
+  destruct (on_table_in e _ c d HI' Hin) as [Hc _].
+  destruct HI' as (_ & _ & _ & _ & _ & I6 & _). apply I6; assumption.
 Qed.
